@@ -1,4 +1,26 @@
-(** [Proof.Update] for EVERY valid block (C07, concluded): whole subtrees and whole trees deleted. *)
+(** [Proof.Update] for EVERY valid block (C07, concluded): sibling leaves, whole subtrees and whole
+    trees deleted.
+
+    [ProofUpdateDel] proves [proof_update = exp_cached (apply_block ..)] for blocks whose deleted
+    leaves are pairwise non-siblings and leave a leaf in every tree ("regular").  This file removes
+    that hypothesis: [proof_update_every_block] at the end has only the hypotheses of a valid
+    block (distinct live deletions, fresh additions).
+
+    1. the lift of the coordinates over the roots of the MAXIMAL DELETED SUBTREES of a tree
+       ([glist], [move_tree_g]: the generalisation of [move_tree_multi] from leaves to subtrees),
+       and A3/A4 of the general reduction for a forest ([gf_up], [gf_down]);
+    2. the converse of [subtree_same_block]: positions in different trees have different
+       [subtree_of] ([subtree_diff_trees]), by the bits of the number of leaves that the loop of
+       [DetectOffset] consumes;
+    3. [getNewPositions] when some targets are tops of whole deleted trees: those targets are
+       skipped for every surviving position ([pd2_gnp_targets], [pd2_gnp_loop]);
+    4. the general reduction [dg2_remove]/[dg2_block]: [dg_remove]/[dg_block] of [ProofUpdateDel]
+       with flagged targets (flag [false]: top of a deleted tree, skipped);
+    5. the specification of [deTwin] on the sorted positions of the deleted leaves: the result is
+       sorted and consists exactly of the tops of the fully deleted trees and of the roots of the
+       maximal deleted subtrees of the other trees ([tw_deTwin], [tw_char_fwd], [tw_char_bwd]);
+    6. the final theorem [proof_update_every_block], its instance for terms, and examples computed
+       by [vm_compute] (a deleted subtree of four leaves, a deleted tree, every leaf deleted). *)
 From Utreexo Require Import Base.Hash Model.Utils Model.UtilsFast Model.Verify Model.ProofOps
   Model.ProofUpdate Spec.Forest Spec.Oracle Spec.Geometry Spec.Term
   Proofs.UtilsGeom Proofs.UtilsGeom2 Proofs.SpecBasics Proofs.StumpAdd Proofs.LayoutStruct
@@ -294,3 +316,2009 @@ Section GenForest.
     change (ecoord (RefTheory.prune_entry HO hs e)) with (ecoord e) in Hw. exact Hw.
   Qed.
 End GenForest.
+
+
+(** * 2. [DetectOffset]: positions of different trees have different results *)
+
+Lemma do2_step fuel p nr n t b lo : nr < 64 -> t <= 63 -> p < W ->
+  (p * 2 ^ nr) mod 2 ^ (t + 1) = lo mod 2 ^ (t + 1) ->
+  DetectOffset_loop (S fuel) p nr n (Z.of_N t) b =
+  if N.testbit n t && negb (N.testbit lo t) then Some (b, sub8 t nr, not64 (xor64 p 1))
+  else DetectOffset_loop fuel (if N.testbit n t then sub64 p (2 ^ t) else p) nr n (Z.of_N t - 1)%Z
+                         (if N.testbit n t then add8 b 1 else b).
+Proof.
+  intros Hnr Ht Hp I1. cbn [DetectOffset_loop]. rewrite (do_u8z t) by (clear - Ht; lia).
+  rewrite (do_A p nr t Hnr Ht), I1.
+  unfold maxLeafCount. rewrite (shl_1 t Ht). unfold and64. rewrite do_land_pow2.
+  assert (T1 : (lo mod 2 ^ (t + 1) <? (if N.testbit n t then 2 ^ t else 0))
+               = N.testbit n t && negb (N.testbit lo t)).
+  { destruct (N.testbit n t); [apply do_mod_lt|]. cbn [andb]. apply N.ltb_ge, N.le_0_l. }
+  rewrite T1. destruct (N.testbit n t && negb (N.testbit lo t)); [reflexivity|].
+  destruct (Z.ltb_spec (Z.of_N t) 0) as [Hc|_]; [exfalso; clear - Hc; lia|].
+  rewrite N2Z.id, (shl_1 t Ht), do_land_pow2.
+  destruct (N.testbit n t).
+  - destruct (N.eqb_spec (2 ^ t) 0) as [Hc|_]; [exfalso; exact (pow2_nz t Hc)|]. reflexivity.
+  - rewrite N.eqb_refl. reflexivity.
+Qed.
+
+Lemma do2_next p nr n t lo : nr < 64 -> 1 <= t -> t <= 63 -> p < W ->
+  (p * 2 ^ nr) mod 2 ^ (t + 1) = lo mod 2 ^ (t + 1) ->
+  let p' := if N.testbit n t then sub64 p (2 ^ t) else p in
+  p' < W /\ (p' * 2 ^ nr) mod 2 ^ (t - 1 + 1) = lo mod 2 ^ (t - 1 + 1).
+Proof.
+  intros Hnr Ht1 Ht Hp I1. cbv zeta.
+  assert (Et : t - 1 + 1 = t) by (clear - Ht1; lia).
+  assert (HW : W <> 0) by (rewrite W_eq; apply pow2_nz).
+  pose proof (do_inv_down _ _ t Ht1 I1) as D.
+  destruct (N.testbit n t).
+  - split; [unfold sub64; rewrite wrap_mod; apply N.mod_lt, HW|].
+    rewrite Et in *. rewrite (do_sub p nr t Hp Ht). exact D.
+  - split; [exact Hp|exact D].
+Qed.
+
+(** the slot [lo] lies in the tree of row [k] *)
+Definition in_tree (n lo k : N) : Prop :=
+  N.testbit n k = true /\ N.testbit lo k = false /\ lo / 2 ^ (k + 1) = n / 2 ^ (k + 1).
+
+Lemma in_tree_above n lo k t : in_tree n lo k -> k < t -> N.testbit lo t = N.testbit n t.
+Proof.
+  intros (_ & _ & E) Hlt. replace t with ((t - (k + 1)) + (k + 1)) by lia.
+  rewrite <- !N.div_pow2_bits, E. reflexivity.
+Qed.
+
+(** the result is at least the current count *)
+Lemma do2_loop_ge n lo k nr : nr < 64 -> in_tree n lo k ->
+  forall m fuel p b, let t := k + N.of_nat m in
+    t <= 63 -> (N.to_nat t < fuel)%nat -> p < W -> b + N.of_nat m < 256 ->
+    (p * 2 ^ nr) mod 2 ^ (t + 1) = lo mod 2 ^ (t + 1) ->
+    exists b', do_first (DetectOffset_loop fuel p nr n (Z.of_N t) b) = Some b' /\ b <= b' /\ b' <= b + N.of_nat m.
+Proof.
+  intros Hnr Hin. induction m as [|m IH]; intros fuel p b t Ht Hf Hp Hb I1; subst t.
+  - rewrite N.add_0_r in *. destruct fuel as [|f]; [exfalso; clear - Hf; lia|].
+    rewrite (do2_step f p nr n k b lo Hnr Ht Hp I1).
+    destruct Hin as (B1 & B2 & _). rewrite B1, B2. cbn. exists b. split; [reflexivity|clear; lia].
+  - set (t := k + N.of_nat (S m)) in *. destruct fuel as [|f]; [exfalso; clear - Hf; lia|].
+    assert (Hkt : k < t) by (unfold t; clear; lia).
+    assert (Ht1 : 1 <= t) by (clear - Hkt; lia).
+    assert (Et1 : t - 1 = k + N.of_nat m) by (unfold t; clear; lia).
+    assert (EZ : (Z.of_N t - 1)%Z = Z.of_N (k + N.of_nat m)) by (unfold t; clear; lia).
+    assert (Ht' : k + N.of_nat m <= 63) by (unfold t in Ht; clear - Ht; lia).
+    assert (Hf' : (N.to_nat (k + N.of_nat m) < f)%nat) by (unfold t in Hf; clear - Hf; lia).
+    assert (Hb' : b + 1 + N.of_nat m < 257) by (clear - Hb; lia).
+    rewrite (do2_step f p nr n t b lo Hnr Ht Hp I1).
+    rewrite (in_tree_above n lo k t Hin Hkt).
+    assert (Etest : N.testbit n t && negb (N.testbit n t) = false) by (destruct (N.testbit n t); reflexivity).
+    rewrite Etest.
+    destruct (do2_next p nr n t lo Hnr Ht1 Ht Hp I1) as [Hp' I1'].
+    rewrite EZ. rewrite Et1 in I1'.
+    set (b1 := if N.testbit n t then add8 b 1 else b) in *.
+    assert (Hb1 : b <= b1 /\ b1 <= b + 1).
+    { unfold b1. destruct (N.testbit n t); [|clear; lia]. rewrite add8_small by (clear - Hb; lia). clear; lia. }
+    assert (Hb1' : b1 + N.of_nat m < 256) by (clear - Hb Hb1; lia).
+    destruct (IH f _ b1 Ht' Hf' Hp' Hb1' I1') as (b' & E & L1 & L2).
+    exists b'. split; [exact E|]. clear - L1 L2 Hb1. lia.
+Qed.
+
+(** two slots of different trees: different counts *)
+Lemma do2_loop_diff n lo1 lo2 k1 k2 nr1 nr2 : nr1 < 64 -> nr2 < 64 ->
+  in_tree n lo1 k1 -> in_tree n lo2 k2 -> k2 < k1 ->
+  forall m fuel p1 p2 b, let t := k1 + N.of_nat m in
+    t <= 63 -> (N.to_nat t < fuel)%nat -> p1 < W -> p2 < W -> b + N.of_nat m + k1 < 255 ->
+    (p1 * 2 ^ nr1) mod 2 ^ (t + 1) = lo1 mod 2 ^ (t + 1) ->
+    (p2 * 2 ^ nr2) mod 2 ^ (t + 1) = lo2 mod 2 ^ (t + 1) ->
+    do_first (DetectOffset_loop fuel p1 nr1 n (Z.of_N t) b)
+    <> do_first (DetectOffset_loop fuel p2 nr2 n (Z.of_N t) b).
+Proof.
+  intros Hnr1 Hnr2 Hin1 Hin2 Hk. induction m as [|m IH]; intros fuel p1 p2 b t Ht Hf Hp1 Hp2 Hb I1 I2; subst t.
+  - rewrite N.add_0_r in *. destruct fuel as [|f]; [exfalso; clear - Hf; lia|].
+    assert (Ht1 : 1 <= k1) by (clear - Hk; lia).
+    set (mm := N.to_nat (k1 - 1 - k2)).
+    assert (Et1 : k1 - 1 = k2 + N.of_nat mm) by (unfold mm; clear - Hk; lia).
+    assert (EZ : (Z.of_N k1 - 1)%Z = Z.of_N (k2 + N.of_nat mm)) by (unfold mm; clear - Hk; lia).
+    assert (Ht' : k2 + N.of_nat mm <= 63) by (unfold mm; clear - Hk Ht; lia).
+    assert (Hf' : (N.to_nat (k2 + N.of_nat mm) < f)%nat) by (unfold mm; clear - Hk Hf; lia).
+    assert (Hb' : b + 1 + N.of_nat mm < 256) by (unfold mm; clear - Hk Hb; lia).
+    assert (Hb1 : b + 1 < 256) by (clear - Hb; lia).
+    rewrite (do2_step f p1 nr1 n k1 b lo1 Hnr1 Ht Hp1 I1), (do2_step f p2 nr2 n k1 b lo2 Hnr2 Ht Hp2 I2).
+    pose proof Hin1 as (B1 & B2 & _). rewrite B1, B2. cbn [andb negb].
+    rewrite (in_tree_above n lo2 k2 k1 Hin2 Hk), B1. cbn [andb negb].
+    destruct (do2_next p2 nr2 n k1 lo2 Hnr2 Ht1 Ht Hp2 I2) as [Hp' I2']. rewrite B1 in Hp', I2'.
+    rewrite add8_small by exact Hb1. rewrite EZ. rewrite Et1 in I2'.
+    destruct (do2_loop_ge n lo2 k2 nr2 Hnr2 Hin2 mm f _ (b + 1) Ht' Hf' Hp' Hb' I2') as (b' & E & L1 & _).
+    rewrite E. cbn. intros Eq. injection Eq as Eq. clear - Eq L1. lia.
+  - set (t := k1 + N.of_nat (S m)) in *. destruct fuel as [|f]; [exfalso; clear - Hf; lia|].
+    assert (Hkt1 : k1 < t) by (unfold t; clear; lia).
+    assert (Hkt2 : k2 < t) by (clear - Hkt1 Hk; lia).
+    assert (Ht1 : 1 <= t) by (clear - Hkt1; lia).
+    assert (Et1 : t - 1 = k1 + N.of_nat m) by (unfold t; clear; lia).
+    assert (EZ : (Z.of_N t - 1)%Z = Z.of_N (k1 + N.of_nat m)) by (unfold t; clear; lia).
+    assert (Ht' : k1 + N.of_nat m <= 63) by (unfold t in Ht; clear - Ht; lia).
+    assert (Hf' : (N.to_nat (k1 + N.of_nat m) < f)%nat) by (unfold t in Hf; clear - Hf; lia).
+    rewrite (do2_step f p1 nr1 n t b lo1 Hnr1 Ht Hp1 I1), (do2_step f p2 nr2 n t b lo2 Hnr2 Ht Hp2 I2).
+    rewrite (in_tree_above n lo1 k1 t Hin1 Hkt1), (in_tree_above n lo2 k2 t Hin2 Hkt2).
+    assert (Etest : N.testbit n t && negb (N.testbit n t) = false) by (destruct (N.testbit n t); reflexivity).
+    rewrite Etest.
+    destruct (do2_next p1 nr1 n t lo1 Hnr1 Ht1 Ht Hp1 I1) as [Hp1' I1'].
+    destruct (do2_next p2 nr2 n t lo2 Hnr2 Ht1 Ht Hp2 I2) as [Hp2' I2'].
+    rewrite EZ. rewrite Et1 in I1', I2'.
+    set (b1 := if N.testbit n t then add8 b 1 else b) in *.
+    assert (Hb1 : b1 <= b + 1).
+    { unfold b1. destruct (N.testbit n t); [|clear; lia]. rewrite add8_small by (clear - Hb; lia). clear; lia. }
+    assert (Hb1' : b1 + N.of_nat m + k1 < 255) by (clear - Hb Hb1; lia).
+    exact (IH f _ _ b1 Ht' Hf' Hp1' Hp2' Hb1' I1' I2').
+Qed.
+
+Theorem subtree_diff_trees n r1 o1 r2 o2 k1 k2 : n <= 2 ^ 63 ->
+  r1 <= TreeRows n -> o1 < 2 ^ (TreeRows n - r1) -> r2 <= TreeRows n -> o2 < 2 ^ (TreeRows n - r2) ->
+  in_tree n (o1 * 2 ^ r1) k1 -> in_tree n (o2 * 2 ^ r2) k2 -> k1 <> k2 ->
+  subtree_of (gpos (TreeRows n) r1 o1) n <> subtree_of (gpos (TreeRows n) r2 o2) n.
+Proof.
+  intros Hn Hr1 Ho1 Hr2 Ho2 T1 T2 Hk.
+  pose proof (TreeRows_le_63 n Hn) as Hh. pose proof (TreeRows_upper n) as Hup.
+  set (h := TreeRows n) in *.
+  assert (Hkh : forall lo k, in_tree n lo k -> k <= h).
+  { intros lo k (B & _ & _). destruct (N.le_gt_cases k h) as [Hle|Hgt]; [exact Hle|exfalso].
+    assert (Hlt : n < 2 ^ k).
+    { eapply N.le_lt_trans; [exact Hup|]. apply pow2_lt. exact Hgt. }
+    rewrite (testbit_small n k k Hlt (N.le_refl k)) in B. discriminate. }
+  pose proof (Hkh _ _ T1) as Hk1. pose proof (Hkh _ _ T2) as Hk2.
+  unfold subtree_of, DetectOffset. cbv zeta. fold h.
+  rewrite (DetectRow_gpos h r1 o1 Hh Hr1 Ho1), (DetectRow_gpos h r2 o2 Hh Hr2 Ho2).
+  rewrite !do_first_subtree.
+  assert (Hr1' : r1 < 64) by (clear - Hr1 Hh; lia). assert (Hr2' : r2 < 64) by (clear - Hr2 Hh; lia).
+  assert (Hfu : (N.to_nat h < 70)%nat) by (clear - Hh; lia).
+  pose proof (gpos_lt_W h r1 o1 Hh Hr1 Ho1) as W1. pose proof (gpos_lt_W h r2 o2 Hh Hr2 Ho2) as W2.
+  pose proof (do_init h r1 o1 Hr1) as I1. pose proof (do_init h r2 o2 Hr2) as I2.
+  set (m1 := N.to_nat (h - k1)). set (m2 := N.to_nat (h - k2)).
+  assert (E1 : h = k1 + N.of_nat m1) by (unfold m1; clear - Hk1; lia).
+  assert (E2 : h = k2 + N.of_nat m2) by (unfold m2; clear - Hk2; lia).
+  assert (Hb1 : 0 + N.of_nat m1 < 256) by (unfold m1; clear - Hh Hk1; lia).
+  assert (Hb2 : 0 + N.of_nat m2 < 256) by (unfold m2; clear - Hh Hk2; lia).
+  pose proof (do2_loop_ge n _ k1 r1 Hr1' T1 m1 70%nat (gpos h r1 o1) 0) as G1. cbv zeta in G1.
+  rewrite <- E1 in G1. destruct (G1 Hh Hfu W1 Hb1 I1) as (b1 & G1' & _). clear G1.
+  pose proof (do2_loop_ge n _ k2 r2 Hr2' T2 m2 70%nat (gpos h r2 o2) 0) as G2. cbv zeta in G2.
+  rewrite <- E2 in G2. destruct (G2 Hh Hfu W2 Hb2 I2) as (b2 & G2' & _). clear G2.
+  assert (Hne : do_first (DetectOffset_loop 70 (gpos h r1 o1) r1 n (Z.of_N h) 0)
+                <> do_first (DetectOffset_loop 70 (gpos h r2 o2) r2 n (Z.of_N h) 0)).
+  { destruct (N.lt_trichotomy k1 k2) as [Hlt|[Heq|Hgt]]; [|contradiction|].
+    - assert (Hbb : 0 + N.of_nat m2 + k2 < 255) by (unfold m2; clear - Hh Hk2; lia).
+      pose proof (do2_loop_diff n _ _ k2 k1 r2 r1 Hr2' Hr1' T2 T1 Hlt m2 70%nat (gpos h r2 o2) (gpos h r1 o1) 0) as G.
+      cbv zeta in G. rewrite <- E2 in G. intros Eq. exact (G Hh Hfu W2 W1 Hbb I2 I1 (eq_sym Eq)).
+    - assert (Hbb : 0 + N.of_nat m1 + k1 < 255) by (unfold m1; clear - Hh Hk1; lia).
+      pose proof (do2_loop_diff n _ _ k1 k2 r1 r2 Hr1' Hr2' T1 T2 Hgt m1 70%nat (gpos h r1 o1) (gpos h r2 o2) 0) as G.
+      cbv zeta in G. rewrite <- E1 in G. exact (G Hh Hfu W1 W2 Hbb I1 I2). }
+  rewrite G1', G2' in *. intros Eq. apply Hne. rewrite Eq. reflexivity.
+Qed.
+Print Assumptions subtree_diff_trees.
+
+(** * 3. [getNewPositions] when some targets are roots of whole deleted trees *)
+
+Section Gnp2.
+  Variable H : Type.
+  Variable HO : ops H.
+  Variable R : nat.
+  Variable n : N.
+  Hypothesis HR : (R <= 63)%nat.
+  Hypothesis Hn : n <= 2 ^ 63.
+  Hypothesis ER : N.of_nat R = TreeRows n.
+  Local Notation hp := (hp H).
+  Local Notation Heqb := (op_eqb HO).
+  Local Notation empty := (op_empty HO).
+
+  (** targets with a flag: [true] = lifts the positions below the parent; [false] = a whole tree *)
+  Definition lifts (Dall : list (coord * bool)) : list coord := map fst (filter snd Dall).
+  Local Notation tid x := (subtree_of (cpos R x) n).
+
+  (** what makes the skipped targets harmless for [x]: an invariant of the lifts that separates
+      [x] from them *)
+  Definition gok (Dall : list (coord * bool)) (x : coord) : Prop :=
+    exists Inv : coord -> Prop, Inv x /\
+      (forall d, In (d, true) Dall -> forall y, Inv y -> Inv (lift1 d y)) /\
+      (forall d, In (d, false) Dall -> forall y, Inv y -> tid d <> tid y).
+
+  Lemma lifts_cons_true d Dall : lifts ((d, true) :: Dall) = d :: lifts Dall.
+  Proof. reflexivity. Qed.
+  Lemma lifts_cons_false d Dall : lifts ((d, false) :: Dall) = lifts Dall.
+  Proof. reflexivity. Qed.
+  Lemma lifts_In d Dall : In d (lifts Dall) <-> In (d, true) Dall.
+  Proof.
+    unfold lifts. rewrite in_map_iff. split.
+    - intros ([d' b] & E & Hin). cbn [fst] in E. subst d'. apply filter_In in Hin as [Hin Hb].
+      cbn [snd] in Hb. subst b. exact Hin.
+    - intros Hin. exists (d, true). split; [reflexivity|]. apply filter_In. auto.
+  Qed.
+
+  Lemma pd2_gnp_targets : forall (Dall : list (coord * bool)) x rho,
+    (forall d, In (d, true) Dall -> dok R n d) -> cvalid R x -> cinf n x -> gok Dall x ->
+    gnp_targets (map (cpos R) (map fst Dall)) (cpos R x) n rho (N.of_nat R) = cpos R (liftc (lifts Dall) x).
+  Proof.
+    induction Dall as [|[d b] Dall IH]; intros x rho HD Hvx Hix Hg; [reflexivity|].
+    assert (HD' : forall d', In (d', true) Dall -> dok R n d') by (intros d' Hd'; apply HD; right; exact Hd').
+    destruct Hg as (Inv & Ix & Icl & Isk).
+    assert (Hg' : forall y, Inv y -> gok Dall y).
+    { intros y Iy. exists Inv. split; [exact Iy|]. split; intros d' Hd'; [apply Icl|apply Isk]; right; exact Hd'. }
+    cbn [map gnp_targets fst].
+    destruct (isRootPositionOnRow (cpos R x) n rho) eqn:Eroot.
+    - pose proof (pd_isRoot_any R n x rho HR Hn ER Hvx Eroot) as Hr.
+      rewrite (pd_liftc_root n (lifts ((d, b) :: Dall)) x); [reflexivity| |exact Hr].
+      intros d' Hd'. apply lifts_In in Hd'. exact (proj2 (proj2 (HD d' Hd'))).
+    - destruct b.
+      + destruct (HD d (or_introl eq_refl)) as (Hd & Hvd & Hpf).
+        rewrite lifts_cons_true. unfold liftc. cbn [fold_left]. fold (liftc (lifts Dall) (lift1 d x)).
+        rewrite (pu_isAnc_anc R d x HR Hd Hvd Hvx).
+        destruct (anc (S (fst d), snd d / 2) x) eqn:Ea.
+        * rewrite (pu_same_subtree R n d x HR Hn ER Hvd Hvx Hpf Ea), N.eqb_refl. cbn [negb].
+          pose proof (lift1_bridge R d x HR Hd Hvd Hvx) as Hb.
+          rewrite (pu_isAnc_anc R d x HR Hd Hvd Hvx), Ea in Hb. rewrite Hb.
+          apply IH; [exact HD'|apply lift1_valid; assumption|apply pu_lift1_cinf; assumption|].
+          apply Hg'. apply (Icl d (or_introl eq_refl)). exact Ix.
+        * rewrite (pd_lift1_id d x Ea).
+          destruct (negb _); apply IH; try assumption; apply Hg'; exact Ix.
+      + rewrite lifts_cons_false.
+        assert (Hne : negb (subtree_of (cpos R d) n =? subtree_of (cpos R x) n) = true).
+        { apply negb_true_iff, N.eqb_neq. exact (Isk d (or_introl eq_refl) x Ix). }
+        rewrite Hne. apply IH; try assumption. apply Hg'. exact Ix.
+  Qed.
+
+  Lemma pd2_gnp_loop (Dall : list (coord * bool)) b : (forall d, In (d, true) Dall -> dok R n d) ->
+    forall (X : list (coord * H)) rho, rho <= N.of_nat R ->
+    (forall e, In e X -> cvalid R (fst e) /\ cinf n (fst e)) ->
+    (forall e, In e X -> Heqb (snd e) empty = false -> gok Dall (fst e)) ->
+    (forall e, In e X -> Heqb (snd e) empty = false ->
+               b = true \/ is_root_c n (cN (liftc (lifts Dall) (fst e))) = false) ->
+    gnp_loop HO (map (cpos R) (map fst Dall)) (map (cposh H R) X) n (N.of_nat R) rho b
+    = map (fun e => cposh H R (liftc (lifts Dall) (fst e), snd e))
+          (filter (fun e => negb (Heqb (snd e) empty)) X).
+  Proof.
+    intros HD. induction X as [|e X IH]; intros rho Hrho Hok Hgok Hnr; [reflexivity|].
+    cbn [map gnp_loop filter]. change (cposh H R e) with (cpos R (fst e), snd e). cbn [fst snd].
+    assert (HokX : forall e', In e' X -> cvalid R (fst e') /\ cinf n (fst e'))
+      by (intros e' He'; apply Hok; right; exact He').
+    assert (HgX : forall e', In e' X -> Heqb (snd e') empty = false -> gok Dall (fst e'))
+      by (intros e' He'; apply Hgok; right; exact He').
+    assert (HnrX : forall e', In e' X -> Heqb (snd e') empty = false ->
+               b = true \/ is_root_c n (cN (liftc (lifts Dall) (fst e'))) = false)
+      by (intros e' He'; apply Hnr; right; exact He').
+    destruct (Heqb (snd e) empty) eqn:Enz; cbn [negb].
+    - apply IH; assumption.
+    - destruct (Hok e (or_introl eq_refl)) as [Hv Hi].
+      pose proof (pu_cvalid_vld R n HR Hn ER (fst e) Hv) as Hvl.
+      assert (Hrow : gnp_row 300 (cpos R (fst e)) rho (N.of_nat R) <= N.of_nat R).
+      { change (cpos R (fst e)) with (g (N.of_nat R) (cN (fst e))). rewrite ER.
+        apply (pd_gnp_row_le R n HR Hn ER); [exact Hvl|rewrite <- ER; exact Hrho]. }
+      set (rho' := gnp_row 300 (cpos R (fst e)) rho (N.of_nat R)) in *.
+      destruct (N.ltb_spec (N.of_nat R) rho') as [Hc|_]; [lia|].
+      rewrite (pd2_gnp_targets Dall (fst e) rho' HD Hv Hi (Hgok e (or_introl eq_refl) Enz)).
+      assert (Hkeep : b || negb (isRootPositionOnRow (cpos R (liftc (lifts Dall) (fst e))) n rho') = true).
+      { destruct (Hnr e (or_introl eq_refl) Enz) as [->|Hnroot]; [reflexivity|].
+        destruct (isRootPositionOnRow (cpos R (liftc (lifts Dall) (fst e))) n rho') eqn:Er;
+          [|apply Bool.orb_true_r].
+        assert (Hvy : cvalid R (liftc (lifts Dall) (fst e))).
+        { apply liftc_valid; [intros d Hd; apply lifts_In in Hd; exact (proj1 (HD d Hd))|exact Hv]. }
+        rewrite (pd_isRoot_any R n _ rho' HR Hn ER Hvy Er) in Hnroot. discriminate. }
+      rewrite Hkeep. cbn [map]. f_equal. apply IH; assumption.
+  Qed.
+End Gnp2.
+
+(** * 4. The general reduction again, with whole trees among the targets *)
+
+Section DelGen2.
+  Variable H : Type.
+  Variable HO : ops H.
+  Hypothesis HOK : ops_ok HO.
+  Hypothesis hash_nz : forall a b, NZ HO (op_hash2 HO a b).
+  Variable s : slots H.
+  Hypothesis Hlive_nz : forall h, In (Some h) s -> NZ HO h.
+  Hypothesis Hn63 : N.of_nat (length s) <= 2 ^ 63.
+  Hypothesis Hnd : NoDup (live s).
+  Local Notation lay := (layout HO s).
+  Local Notation R := (rows_of (num_leaves s)).
+  Local Notation n := (N.of_nat (length s)).
+  Local Notation total := (TreeRows (N.of_nat (length s))).
+  (** the deleted leaves: hashes and nodes *)
+  Variable hs : list H.
+  Variable xds : list (node H).
+  Hypothesis Hxds_lay : forall x, In x xds -> In x lay.
+  Hypothesis Hxds_leaf : forall x, In x xds -> nleaf x = true.
+  Hypothesis Hxds_hash : map (@nhash H) xds = hs.
+  Local Notation prune := (RefTheory.prune HO hs).
+  Local Notation s1 := (kill HO hs s).
+  Local Notation lay1 := (layout HO s1).
+  Local Notation R1 := (rows_of (num_leaves s1)).
+  Local Notation F := (Fv H HO s).
+  Local Notation F1 := (Fv H HO s1).
+  Local Notation bt := (map (npos R) xds).
+  Local Notation BT := (sortN (map (npos R) xds)).
+  (** the detwinned targets as coordinates, and what the lift over them does *)
+  Variable Dall : list (coord * bool).
+  Local Notation Dd := (lifts Dall).
+  Hypothesis A1 : deTwin BT (TreeRows (num_leaves s)) = map (cpos R) (map fst Dall).
+  Hypothesis A2 : forall d, In (d, true) Dall -> dok R n d.
+  (** the whole trees among the targets are harmless for every surviving subtree *)
+  Hypothesis A2s : forall c0 r0 o0 c0', locc H HO s c0 r0 o0 -> prune c0 = Some c0' ->
+    gok R n Dall (r0, o0).
+  Hypothesis A3 : forall c0 r0 o0 c0', locc H HO s c0 r0 o0 -> prune c0 = Some c0' ->
+    locc H HO s1 c0' (fst (liftc Dd (r0, o0))) (snd (liftc Dd (r0, o0))).
+  Hypothesis A4 : forall c0' r1 o1, locc H HO s1 c0' r1 o1 ->
+    exists c0 r0 o0, locc H HO s c0 r0 o0 /\ prune c0 = Some c0' /\ liftc Dd (r0, o0) = (r1, o1) /\
+                     uncontracted H HO hs c0.
+
+  Lemma dg2_n63' : N.of_nat (length s1) <= 2 ^ 63.
+  Proof. rewrite length_kill. exact Hn63. Qed.
+  Lemma dg2_R1 : R1 = R. Proof. apply kill_rows. Qed.
+
+  Lemma dg2_live1 h : In (Some h) s1 <-> In (Some h) s /\ ~ In h hs.
+  Proof.
+    unfold kill. rewrite in_map_iff. split.
+    - intros ([x|] & E & Hx); [|discriminate].
+      destruct (memH HO x hs) eqn:Ex; [discriminate|]. injection E as <-.
+      split; [exact Hx|]. intros Hin. apply (memH_In H HO HOK) in Hin. congruence.
+    - intros [Hh Hne]. exists (Some h). split; [|exact Hh].
+      destruct (memH HO h hs) eqn:Ex; [apply (memH_In H HO HOK) in Ex; contradiction|reflexivity].
+  Qed.
+
+  Lemma dg2_nd1 : NoDup (live s1).
+  Proof.
+    clear - Hnd. unfold kill. induction s as [|[h|] t IH]; cbn [map live flat_map] in *; [constructor| |].
+    - cbn [app] in Hnd. inversion Hnd as [|x l Hn Hl]; subst. specialize (IH Hl).
+      destruct (memH HO h hs); cbn [app]; [exact IH|]. constructor; [|exact IH].
+      intros Hin. apply Hn. fold (live t).
+      fold (live (map (fun o => match o with Some h0 => if memH HO h0 hs then None else Some h0 | None => None end) t)) in Hin.
+      apply live_in in Hin. apply in_map_iff in Hin as ([y|] & E & Hy); [|discriminate].
+      destruct (memH HO y hs); [discriminate|]. injection E as ->. apply live_in. exact Hy.
+    - apply IH. exact Hnd.
+  Qed.
+
+  (** a leaf node with a deleted hash is one of the deleted nodes *)
+  Lemma dg2_xds x : In x lay -> nleaf x = true -> (In (nhash x) hs <-> In x xds).
+  Proof.
+    intros Hx Hl. split.
+    - intros Hh. rewrite <- Hxds_hash in Hh. apply in_map_iff in Hh as (x' & Eh & Hx').
+      rewrite (live_leaf_unique H HO s x x' Hnd Hx (Hxds_lay x' Hx') Hl (Hxds_leaf x' Hx') (eq_sym Eh)). exact Hx'.
+    - intros Hin. rewrite <- Hxds_hash. apply in_map, Hin.
+  Qed.
+
+  Lemma dg2_BT x : In x lay -> (In (npos R x) BT <-> In x xds).
+  Proof.
+    intros Hx. rewrite RefTheory.sortN_In, in_map_iff. split.
+    - intros (x' & Ep & Hx'). rewrite (RefTheory.layout_npos_inj H HO s x x' Hx (Hxds_lay x' Hx') (eq_sym Ep)). exact Hx'.
+    - intros Hin. exists x. auto.
+  Qed.
+
+  Variable C : list H.
+  Hypothesis HC : NoDup C.
+  Variables (hC : list H) (tC : list N) (pC : list H).
+  Hypothesis E : exp_cached HO (mk_ctx HO s) C = Some (hC, tC, pC).
+
+  Theorem dg2_remove :
+    updateProofRemove HO tC pC bt hC (new_del HO s hs) (num_leaves s)
+    = exp_cached HO (mk_ctx HO s1) (removeH HO C hs) /\
+    exp_cached HO (mk_ctx HO s1) (removeH HO C hs) <> None.
+  Proof.
+    pose proof (pu_nle n) as Hnle. pose proof (pu_t63 n Hn63) as Ht63.
+    pose proof dg2_n63' as Hn63'. pose proof dg2_nd1 as Hnd1. pose proof dg2_R1 as ER1.
+    pose proof (rf_R_total H s) as ER. pose proof (rows_of_le_63 _ Hn63) as HR63.
+    (* the cached set before the block *)
+    unfold exp_cached in E. cbn [mk_ctx clay crows] in E.
+    destruct (find_leaves HO lay C) as [tsC|] eqn:FC; [|discriminate].
+    fold (sort_nodes H s tsC) in E. injection E as <- <- <-.
+    destruct (cc_find_leaves_facts HO s C tsC HOK HC FC) as (LC & FlC & NtC & EhC & InC).
+    set (sorted := sort_nodes H s tsC).
+    pose proof (po_sort_nodes_perm H s tsC) as Psort. fold sorted in Psort.
+    assert (LS : forall x, In x sorted -> In x lay)
+      by (intros x Hx; apply LC; exact (Permutation_in _ Psort Hx)).
+    assert (FlS : forall x, In x sorted -> nleaf x = true)
+      by (intros x Hx; apply FlC; exact (Permutation_in _ Psort Hx)).
+    assert (NtS : NoDup sorted) by (exact (Permutation_NoDup (Permutation_sym Psort) NtC)).
+    assert (HsT : SSlt (map (npos R) sorted)).
+    { unfold sorted. rewrite (po_sort_nodes_pos H HO s tsC LC NtC).
+      apply pps_sortN_NoDup_SSlt, (po_targets_NoDup H HO s tsC LC NtC). }
+    assert (Epp : ProofPositions_fast (map (npos R) sorted) n total
+                  = (canon_proof_pos R lay sorted, computable_pos R lay sorted)).
+    { rewrite <- (po_sortN_sorted_id _ HsT) at 1. exact (po_pp_both_fast H HO s Hn63 sorted LS FlS NtS). }
+    pose proof (po_canon_pos_SSlt H HO s Hn63 sorted LS) as HsP.
+    set (OP := canon_proof_pos R lay sorted) in *.
+    assert (HhS : forall h, In h (map (@nhash H) sorted) <-> In h C).
+    { intros h. rewrite <- EhC. split; apply Permutation_in, Permutation_map;
+        [exact Psort|exact (Permutation_sym Psort)]. }
+    (* the survivors *)
+    set (sortedS := filter (fun x => negb (memN (npos R x) BT)) sorted).
+    assert (HinS : forall x, In x sortedS <-> In x sorted /\ ~ In x xds).
+    { intros x. unfold sortedS. rewrite filter_In, negb_true_iff, po_memN_false. split; intros [A B]; split; auto.
+      - intros Hin. apply B. apply (dg2_BT x (LS x A)). exact Hin.
+      - intros Hin. apply B. apply (dg2_BT x (LS x A)). exact Hin. }
+    assert (LSS : forall x, In x sortedS -> In x lay) by (intros x Hx; apply LS, HinS, Hx).
+    assert (FlSS : forall x, In x sortedS -> nleaf x = true) by (intros x Hx; apply FlS, HinS, Hx).
+    assert (NtSS : NoDup sortedS) by (apply NoDup_filter, NtS).
+    set (S := removeH HO C hs).
+    assert (HS : forall h, In h S <-> In h C /\ ~ In h hs).
+    { intros h. unfold S. apply (removeH_In HOK). }
+    assert (HhSS : forall h, In h (map (@nhash H) sortedS) <-> In h S).
+    { intros h. rewrite HS, in_map_iff. split.
+      - intros (x & <- & Hx). apply HinS in Hx as [Hx Hne]. split; [apply HhS, in_map, Hx|].
+        intros Eh. apply Hne. apply (dg2_xds x (LS x Hx) (FlS x Hx)). exact Eh.
+      - intros [Hc Hne]. apply HhS in Hc. apply in_map_iff in Hc as (x & <- & Hx).
+        exists x. split; [reflexivity|]. apply HinS. split; [exact Hx|]. intros Hin. apply Hne.
+        apply (dg2_xds x (LS x Hx) (FlS x Hx)). exact Hin. }
+    assert (EmapS : map (npos R) sortedS = filter (fun p => negb (memN p BT)) (map (npos R) sorted)).
+    { unfold sortedS. symmetry. exact (pd_filter_map (fun p => negb (memN p BT)) (npos R) sorted). }
+    assert (HsBT : SSle BT) by (apply sortN_spec).
+    assert (HsTS : SSlt (map (npos R) sortedS)) by (rewrite EmapS; apply po_filter_SS, HsT).
+    assert (EppS : ProofPositions_fast (map (npos R) sortedS) n total
+                  = (canon_proof_pos R lay sortedS, computable_pos R lay sortedS)).
+    { rewrite <- (po_sortN_sorted_id _ HsTS) at 1. exact (po_pp_both_fast H HO s Hn63 sortedS LSS FlSS NtSS). }
+    pose proof (po_canon_pos_SSlt H HO s Hn63 sortedS LSS) as HsNP.
+    set (NP := canon_proof_pos R lay sortedS) in *.
+    (* the update data *)
+    pose proof (new_del_SSlt H HO hs s) as HsUK.
+    set (ND := new_del HO s hs) in *. set (UK := map fst ND) in *.
+    set (U := lookup H (op_empty HO) ND).
+    assert (NdUK : NoDup (map fst ND)) by (apply pps_SSlt_NoDup; exact HsUK).
+    assert (END : ND = gr H U UK) by (apply lookup_graph; exact NdUK).
+    (* the mirror, down to the two calls of [getNewPositions] *)
+    rewrite (po_canon_hashes_Fv H HO s Hn63 sorted LS). fold OP.
+    unfold updateProofRemove. cbv zeta.
+    rewrite (pu_toHP H (map (npos R) sorted) (map (@nhash H) sorted)) by (try assumption; rewrite !map_length; reflexivity).
+    rewrite (subtractSortedHashAndPos_spec H _ BT)
+      by (try (rewrite pu_zip_fst by (rewrite !map_length; reflexivity); exact HsT); exact HsBT).
+    rewrite pu_zip_map, pd_filter_map.
+    assert (Efil : filter (fun x : node H => negb (memN (fst (npos R x, nhash x)) BT)) sorted = sortedS).
+    { unfold sortedS. apply filter_ext. intros x. reflexivity. }
+    rewrite Efil. clear Efil.
+    rewrite (po_sortN_sorted_id _ HsT).
+    change (N.of_nat (length s)) with (num_leaves s) in Epp, EppS. rewrite Epp.
+    rewrite (pu_toHP H OP (map F OP)) by (try assumption; rewrite map_length; reflexivity).
+    rewrite po_zip_gr. unfold positions at 1. rewrite map_map. cbn [fst].
+    change (map (fun x : node H => npos R x) sortedS) with (map (npos R) sortedS). rewrite EppS.
+    unfold positions. rewrite po_gr_fst, (po_sortN_sorted_id _ HsP), (po_sortN_sorted_id _ HsNP).
+    rewrite (subtractSortedSlice_spec OP NP HsP (po_SSlt_SSle _ HsNP)).
+    set (EX := filter (fun x => negb (memN x NP)) OP).
+    assert (HsEX : SSlt EX) by (apply po_filter_SS, HsP).
+    fold ND. rewrite END at 1 2.
+    rewrite (pd_upr_keep H HO F U OP EX UK HsP HsEX HsUK).
+    rewrite (subtractSortedSlice_spec NP OP HsNP (po_SSlt_SSle _ HsP)).
+    rewrite (subtractSortedSlice_spec _ BT (po_filter_SS _ _ _ HsNP)) by exact HsBT.
+    set (MP := filter (fun x => negb (memN x BT)) (filter (fun x => negb (memN x OP)) NP)).
+    assert (HsMP : SSlt MP) by (apply po_filter_SS, po_filter_SS, HsNP).
+    rewrite (pd_upr_missing H U MP UK HsMP HsUK).
+    rewrite A1.
+    set (kept := flat_map (keep1 H HO F U EX UK) OP).
+    set (miss := gr H U (filter (fun p => memN p UK) MP)).
+    (* the cached set after the deletion *)
+    assert (HSs1 : forall h, In h S -> In (Some h) s1).
+    { intros h Hh. apply HS in Hh as [Hc Hne]. apply dg2_live1. split; [|exact Hne].
+      apply HhS in Hc. apply in_map_iff in Hc as (x & <- & Hx).
+      exact (layout_leaf_live H HO s x (LS x Hx) (FlS x Hx)). }
+    assert (NdS : NoDup S) by (unfold S, removeH; apply NoDup_filter, HC).
+    destruct (po_find_leaves_some H HO s1 S) as [tsU FU].
+    { intros h Hh. destruct (proj1 (find_leaf_live H HO s1 h HOK) (HSs1 h Hh)) as (x & Ex & _).
+      exists x. exact Ex. }
+    destruct (cc_find_leaves_facts HO s1 S tsU HOK NdS FU) as (LU & FlU & NtU & EhU & InU).
+    set (sortedU := sort_nodes H s1 tsU).
+    pose proof (po_sort_nodes_perm H s1 tsU) as PsortU. fold sortedU in PsortU.
+    assert (LSU : forall x, In x sortedU -> In x lay1)
+      by (intros x Hx; apply LU; exact (Permutation_in _ PsortU Hx)).
+    assert (FlSU : forall x, In x sortedU -> nleaf x = true)
+      by (intros x Hx; apply FlU; exact (Permutation_in _ PsortU Hx)).
+    assert (NtSU : NoDup sortedU) by (exact (Permutation_NoDup (Permutation_sym PsortU) NtU)).
+    assert (HhU : forall h, In h (map (@nhash H) sortedU) <-> In h S).
+    { intros h. rewrite <- EhU. split; apply Permutation_in, Permutation_map;
+        [exact PsortU|exact (Permutation_sym PsortU)]. }
+    assert (HinU : forall y, In y lay1 -> nleaf y = true -> In (nhash y) S -> In y sortedU).
+    { intros y Hy Hl Hh. apply (Permutation_in _ (Permutation_sym PsortU)). apply InU.
+      exists (nhash y). split; [exact Hh|exact (find_leaf_of_node H HO HOK s1 y Hnd1 Hy Hl)]. }
+    assert (HsTU : SSlt (map (npos R) sortedU)).
+    { rewrite <- ER1. unfold sortedU. rewrite (po_sort_nodes_pos H HO s1 tsU LU NtU).
+      apply pps_sortN_NoDup_SSlt, (po_targets_NoDup H HO s1 tsU LU NtU). }
+    unfold exp_cached. cbn [mk_ctx clay crows]. rewrite FU. fold (sort_nodes H s1 tsU). fold sortedU. rewrite ER1.
+    split; [|discriminate].
+    (* values in the new state *)
+    assert (Hval1 : forall c' r o, locc H HO s1 c' r o -> F1 (cpos R (r, o)) = chash c').
+    { intros c' r o Hl. pose proof (locc_val H HO s1 c' r o Hl) as Hv. rewrite ER1 in Hv. exact Hv. }
+    assert (Hnode1 : forall c' r o, locc H HO s1 c' r o ->
+              exists y, In y lay1 /\ npos R y = cpos R (r, o) /\ nhash y = chash c' /\ nleaf y = cleafb H c').
+    { intros c' r o Hl. destruct (locc_node H HO s1 c' r o Hl) as (y & Hy & Yr & Yo & Yh & Yl).
+      exists y. split; [exact Hy|]. split; [unfold npos, cpos; rewrite Yr, Yo; reflexivity|]. auto. }
+    (* the targets *)
+    set (XT := map (fun x : node H => ((nrow x, noff x), nhash x)) sortedS).
+    assert (Etwh : map (fun x : node H => (npos R x, nhash x)) sortedS = map (cposh H R) XT).
+    { unfold XT. rewrite map_map. reflexivity. }
+    rewrite Etwh.
+    pose proof A2 as Hd1.
+    assert (HleafS : forall x, In x sortedS ->
+              locc H HO s (CLeaf (nhash x)) (nrow x) (noff x) /\ prune (CLeaf (nhash x)) = Some (CLeaf (nhash x))).
+    { intros x Hx. destruct (node_locc H HO s x (LSS x Hx) (FlSS x Hx)) as (k0 & lo & c & He & Ho & _).
+      split; [exists k0, lo, c; auto|]. cbn [RefTheory.prune].
+      destruct (memH HO (nhash x) hs) eqn:Ex; [|reflexivity]. exfalso. apply (memH_In H HO HOK) in Ex.
+      apply HinS in Hx as [Hx Hne]. apply Hne. apply (dg2_xds x (LS x Hx) (FlS x Hx)). exact Ex. }
+    assert (HcokL : forall c r o, locc H HO s c r o -> cvalid R (r, o) /\ cinf n (r, o)).
+    { intros c r o Hl. destruct (locc_node H HO s c r o Hl) as (y & Hy & Yr & Yo & _).
+      destruct (layout_coords_rows_of H HO s y Hy) as [V1 V2]. pose proof (layout_coords_valid H HO s y Hy) as V3.
+      rewrite Yr, Yo in *. split; [split; assumption|exact V3]. }
+    assert (ET : getNewPositions HO (map (cpos R) (map fst Dall)) (map (cposh H R) XT) (num_leaves s) true
+                 = gr H F1 (map (npos R) sortedU)).
+    { unfold getNewPositions.
+      rewrite <- (ER : N.of_nat R = TreeRows (num_leaves s)).
+      change (gnp_loop HO (map (cpos R) (map fst Dall)) (map (cposh H R) XT) (num_leaves s) (N.of_nat R) 0 true)
+        with (gnp_loop HO (map (cpos R) (map fst Dall)) (map (cposh H R) XT) n (N.of_nat R) 0 true).
+      rewrite (pd2_gnp_loop H HO R n HR63 Hn63 ER Dall true Hd1 XT 0).
+      - rewrite po_filter_all.
+        2:{ intros e He. unfold XT in He. apply in_map_iff in He as (x & <- & Hx). cbn [snd].
+            apply negb_true_iff. apply Hlive_nz. exact (layout_leaf_live H HO s x (LSS x Hx) (FlSS x Hx)). }
+        assert (Himg : forall x, In x sortedS -> exists y, In y sortedU /\
+                  npos R y = cpos R (liftc Dd (nrow x, noff x)) /\ nhash y = nhash x).
+        { intros x Hx. destruct (HleafS x Hx) as [Hl Hp].
+          pose proof (A3 _ _ _ _ Hl Hp) as Hu.
+          destruct (Hnode1 _ _ _ Hu) as (y & Hy & Ey & Yh & Yl). cbn [chash cleafb] in Yh, Yl.
+          exists y. rewrite <- surjective_pairing in Ey. split; [|auto].
+          apply HinU; [exact Hy|exact Yl|]. rewrite Yh. apply HhSS, in_map, Hx. }
+        apply pd_sortK_graph.
+        + intros e He. apply in_map_iff in He as (e0 & <- & He0). unfold XT in He0.
+          apply in_map_iff in He0 as (x & <- & Hx). unfold cposh. cbn [fst snd].
+          destruct (Himg x Hx) as (y & Hy & Ey & Yh). rewrite <- Ey, <- Yh.
+          rewrite <- ER1. symmetry. exact (po_Fv_node H HO s1 y (LSU y Hy)).
+        + rewrite map_map. unfold XT. rewrite map_map. unfold cposh. cbn [fst snd].
+          apply (RefTheory.NoDup_map_inj_on (fun x : node H => cpos R (liftc Dd (nrow x, noff x)))); [exact NtSS|].
+          intros x1 x2 Hx1 Hx2 Ek.
+          destruct (Himg x1 Hx1) as (y1 & Hy1 & Ey1 & Yh1). destruct (Himg x2 Hx2) as (y2 & Hy2 & Ey2 & Yh2).
+          assert (Ey : y1 = y2).
+          { apply (RefTheory.layout_npos_inj H HO s1 y1 y2 (LSU _ Hy1) (LSU _ Hy2)). rewrite ER1. congruence. }
+          subst y2. apply (live_leaf_unique H HO s x1 x2 Hnd (LSS _ Hx1) (LSS _ Hx2) (FlSS _ Hx1) (FlSS _ Hx2)).
+          congruence.
+        + exact HsTU.
+        + intros p. rewrite map_map. unfold XT. rewrite map_map. unfold cposh. cbn [fst snd].
+          rewrite !in_map_iff. split.
+          * intros (x & <- & Hx). destruct (Himg x Hx) as (y & Hy & Ey & _). exists y. auto.
+          * intros (y & <- & Hy). assert (Hh : In (nhash y) S) by (apply HhU, in_map, Hy).
+            apply HhSS in Hh. apply in_map_iff in Hh as (x & Ex & Hx).
+            destruct (Himg x Hx) as (y' & Hy' & Ey' & Yh'). exists x. split; [|exact Hx].
+            rewrite <- Ey'. f_equal.
+            apply (live_leaf_unique H HO s1 y' y Hnd1 (LSU _ Hy') (LSU _ Hy) (FlSU _ Hy') (FlSU _ Hy)). congruence.
+      - lia.
+      - intros e He. unfold XT in He. apply in_map_iff in He as (x & <- & Hx). cbn [fst].
+        exact (HcokL _ _ _ (proj1 (HleafS x Hx))).
+      - intros e He _. unfold XT in He. apply in_map_iff in He as (x & <- & Hx). cbn [fst].
+        destruct (HleafS x Hx) as [Hl Hp]. exact (A2s _ _ _ _ Hl Hp).
+      - intros e _ _. left. reflexivity. }
+    rewrite ET. clear ET.
+    (* facts about occurrences of [s] *)
+    assert (Hposinj : forall c1 r1 o1 c2 r2 o2, locc H HO s c1 r1 o1 -> locc H HO s c2 r2 o2 ->
+              pos R r1 o1 = pos R r2 o2 -> (r1, o1) = (r2, o2) /\ c1 = c2).
+    { intros c1 r1 o1 c2 r2 o2 L1 L2 Ep.
+      destruct (locc_node H HO s _ _ _ L1) as (y1 & Y1 & Yr1 & Yo1 & _).
+      destruct (locc_node H HO s _ _ _ L2) as (y2 & Y2 & Yr2 & Yo2 & _).
+      assert (Ey : y1 = y2).
+      { apply (RefTheory.layout_npos_inj H HO s y1 y2 Y1 Y2). unfold npos. rewrite Yr1, Yo1, Yr2, Yo2. exact Ep. }
+      subst y2. assert (Ec : (r1, o1) = (r2, o2)) by congruence. split; [exact Ec|].
+      injection Ec as <- <-. exact (locc_uniq H HO s _ _ _ _ L1 L2). }
+    assert (Hcwf : forall c r o, locc H HO s c r o -> cwf H HO c).
+    { intros c r o (k0 & lo & cT & He & Ho).
+      exact (occ_cwf H HO _ _ _ _ _ _ Ho (entry_cwf H HO s (k0, lo, Some cT) cT He eq_refl)). }
+    (* the value the update data and the old proof give for an occurrence *)
+    set (Hv := fun p : N => if memN p UK then U p else F p).
+    assert (VAL : forall c r o, locc H HO s c r o ->
+              Hv (pos R r o) = match prune c with Some c' => chash c' | None => op_empty HO end).
+    { intros c r o Hl. unfold Hv. destruct (has_del HO hs c) eqn:Ed.
+      - assert (Hin : In (pos R r o, ohash HO (after_del HO hs c)) ND).
+        { apply (new_del_occ H HO HOK hs s). exists c, r, o. auto. }
+        assert (Hm : memN (pos R r o) UK = true) by (apply RefTheory.memN_In; unfold UK; apply in_map_iff; eexists; split; [|exact Hin]; reflexivity).
+        rewrite Hm. unfold U. pose proof (lookup_In H (op_empty HO) ND NdUK _ Hin) as Hlk.
+        cbn [fst snd] in Hlk. rewrite Hlk.
+        rewrite (after_del_prune H HO hs c). destruct (prune c); reflexivity.
+      - assert (Hm : memN (pos R r o) UK = false).
+        { apply po_memN_false. intros Hin. unfold UK in Hin. apply in_map_iff in Hin as ([p h] & Ep & Hin).
+          cbn [fst] in Ep. subst p. apply (new_del_occ H HO HOK hs s) in Hin as (c0 & r0 & o0 & L0 & D0 & Ep & _).
+          destruct (Hposinj _ _ _ _ _ _ Hl L0 Ep) as [_ ->]. congruence. }
+        rewrite Hm. rewrite (locc_val H HO s c r o Hl).
+        rewrite (prune_untouched H HO HOK hs c (Hcwf _ _ _ Hl)); [reflexivity|].
+        intros h Hh Hd. assert (Ht : has_del HO hs c = true) by (apply (has_del_iff H HO HOK); exists h; auto).
+        congruence. }
+    (* targets held by a subtree, before and after *)
+    assert (HhitS : forall c, hit H sortedS c <-> exists h, In h S /\ In h (cleaves H c)).
+    { intros c. split.
+      - intros (x & Hx & Hc). exists (nhash x). split; [apply HhSS, in_map, Hx|exact Hc].
+      - intros (h & Hh & Hc). apply HhSS in Hh. apply in_map_iff in Hh as (x & <- & Hx). exists x. auto. }
+    assert (HhitU : forall c, hit H sortedU c <-> exists h, In h S /\ In h (cleaves H c)).
+    { intros c. split.
+      - intros (x & Hx & Hc). exists (nhash x). split; [apply HhU, in_map, Hx|exact Hc].
+      - intros (h & Hh & Hc). apply HhU in Hh. apply in_map_iff in Hh as (x & <- & Hx). exists x. auto. }
+    assert (Hhit_pr : forall c c', prune c = Some c' -> (hit H sortedU c' <-> hit H sortedS c)).
+    { intros c c' Hp. rewrite HhitU, HhitS. split; intros (h & Hh & Hc); exists h; (split; [exact Hh|]).
+      - apply (prune_leaves H HO HOK hs c c' Hp h). exact Hc.
+      - apply (prune_leaves H HO HOK hs c c' Hp h). split; [exact Hc|].
+        intros Hin. apply HS in Hh as [_ Hne]. exact (Hne Hin). }
+    assert (Hhit_some : forall c, hit H sortedS c -> prune c <> None).
+    { intros c Hc Hn. apply HhitS in Hc as (h & Hh & Hc).
+      pose proof (proj1 (prune_none_iff H HO HOK hs c) Hn h Hc) as Hin.
+      apply HS in Hh as [_ Hne]. exact (Hne Hin). }
+    assert (HhitSC : forall c, hit H sortedS c -> hit H sorted c).
+    { intros c (x & Hx & Hc). exists x. split; [apply HinS, Hx|exact Hc]. }
+    (* the canonical proof positions as (known side, proof side) of an inner occurrence *)
+    assert (TRI : forall (ss : slots H) (tsn : list (node H)), N.of_nat (length ss) <= 2 ^ 63 -> NoDup (live ss) ->
+              (forall x, In x tsn -> In x (layout HO ss)) -> (forall x, In x tsn -> nleaf x = true) ->
+              forall p, In p (canon_proof_pos (rows_of (num_leaves ss)) (layout HO ss) tsn) <->
+              exists h k pr r o (b : bool),
+                locc H HO ss (if b then CNode h pr k else CNode h k pr) (Datatypes.S r) o /\
+                hit H tsn k /\ ~ hit H tsn pr /\
+                p = pos (rows_of (num_leaves ss)) r (2 * o + (if b then 0 else 1)) /\
+                locc H HO ss pr r (2 * o + (if b then 0 else 1)) /\
+                locc H HO ss k r (2 * o + (if b then 1 else 0))).
+    { intros ss tsn Hb' Hnd' Hl1 Hl2 p. rewrite (canon_pos_occ H HO ss Hb' Hnd' tsn Hl1 Hl2 p). split.
+      - intros (h & l & rr & r & o & Hlp & [(A & B & ->)|(A & B & ->)]);
+          destruct (locc_child H HO ss _ _ _ Hlp h l rr eq_refl) as (r' & Er & Ll & Lr); injection Er as <-.
+        + exists h, l, rr, r, o, false. repeat split; try assumption. rewrite N.add_0_r. exact Ll.
+        + exists h, rr, l, r, o, true. rewrite !N.add_0_r. repeat split; assumption.
+      - intros (h & k & pr & r & o & b & Hlp & A & B & -> & _). destruct b.
+        + exists h, pr, k, r, o. split; [exact Hlp|]. right. rewrite N.add_0_r. auto.
+        + exists h, k, pr, r, o. split; [exact Hlp|]. left. auto. }
+    pose proof (TRI s sortedS Hn63 Hnd LSS FlSS) as NPT. fold NP in NPT.
+    pose proof (TRI s sorted Hn63 Hnd LS FlS) as OPT. fold OP in OPT.
+    pose proof (TRI s1 sortedU Hn63' Hnd1 LSU FlSU) as N1T. rewrite ER1 in N1T.
+    set (NP1 := canon_proof_pos R lay1 sortedU) in *.
+    (* a needed position that the old proof does not hold is in the update data *)
+    assert (K2a : forall p, In p NP -> ~ In p OP -> memN p UK = true /\ True).
+    { intros p Hp Hnop. split; [|exact I].
+      apply NPT in Hp as (h & k & pr & r & o & b & Hlp & Hk & Hnpr & -> & Lpr & Lk).
+      assert (HC' : hit H sorted pr).
+      {
+        assert (Hdec : hit H sorted pr \/ ~ hit H sorted pr).
+        { destruct (existsb (fun x : node H => memH HO (nhash x) (cleaves H pr)) sorted) eqn:Ex.
+          - left. apply existsb_exists in Ex as (x & Hx & Hm). exists x. split; [exact Hx|].
+            apply (memH_In H HO HOK), Hm.
+          - right. intros (x & Hx & Hm). assert (Ht : existsb (fun x : node H => memH HO (nhash x) (cleaves H pr)) sorted = true).
+            { apply existsb_exists. exists x. split; [exact Hx|]. apply (memH_In H HO HOK), Hm. }
+            congruence. }
+        destruct Hdec as [Hy|Hn]; [exact Hy|]. exfalso. apply Hnop. apply OPT.
+        exists h, k, pr, r, o, b. repeat split; try assumption. apply HhitSC, Hk. }
+      destruct HC' as (x & Hx & Hxc).
+      assert (Ex : In x xds).
+      { destruct (memN (npos R x) BT) eqn:Em.
+        - apply (dg2_BT x (LS x Hx)). apply RefTheory.memN_In, Em.
+        - exfalso. apply Hnpr. exists x. split; [|exact Hxc]. unfold sortedS. apply filter_In.
+          split; [exact Hx|]. rewrite Em. reflexivity. }
+      assert (Hdl : has_del HO hs pr = true).
+      { apply (has_del_iff H HO HOK). exists (nhash x). split; [exact Hxc|].
+        apply (dg2_xds x (LS x Hx) (FlS x Hx)). exact Ex. }
+      assert (Hin : In (pos R r (2 * o + (if b then 0 else 1)), ohash HO (after_del HO hs pr)) ND).
+      { apply (new_del_occ H HO HOK hs s). exists pr, r, (2 * o + (if b then 0 else 1)). auto. }
+      apply RefTheory.memN_In. unfold UK. apply in_map_iff. eexists. split; [|exact Hin]. reflexivity. }
+    (* the entries of the new proof before the positions move *)
+    assert (Hempty : op_eqb HO (op_empty HO) (op_empty HO) = true) by (apply HOK; reflexivity).
+    assert (K1 : forall e, In e (kept ++ miss) -> In (fst e) NP /\ snd e = Hv (fst e)).
+    { intros e He. apply in_app_or in He as [He|He].
+      - unfold kept in He. apply in_flat_map in He as (p & Hp & He). unfold keep1 in He.
+        destruct (memN p EX) eqn:Eex; [destruct He|].
+        assert (HpNP : In p NP).
+        { apply po_memN_false in Eex. destruct (memN p NP) eqn:En; [apply RefTheory.memN_In, En|].
+          exfalso. apply Eex. unfold EX. apply filter_In. split; [exact Hp|]. rewrite En. reflexivity. }
+        unfold Hv. destruct (memN p UK) eqn:Euk.
+        + destruct (op_eqb HO (U p) (op_empty HO)); [destruct He|].
+          destruct He as [<-|[]]. cbn [fst snd]. rewrite Euk. auto.
+        + destruct He as [<-|[]]. cbn [fst snd]. rewrite Euk. auto.
+      - unfold miss in He. apply in_map_iff in He as (p & <- & Hp). cbn [fst snd].
+        apply filter_In in Hp as [Hp Huk]. unfold MP in Hp. apply filter_In in Hp as [Hp _].
+        apply filter_In in Hp as [Hp _]. split; [exact Hp|]. unfold Hv. rewrite Huk. reflexivity. }
+    assert (K2 : forall p, In p NP -> op_eqb HO (Hv p) (op_empty HO) = false -> In (p, Hv p) (kept ++ miss)).
+    { intros p Hp Hnz. apply in_or_app. destruct (memN p OP) eqn:Eop.
+      - left. apply RefTheory.memN_In in Eop. unfold kept. apply in_flat_map. exists p. split; [exact Eop|].
+        unfold keep1. assert (Eex : memN p EX = false).
+        { apply po_memN_false. intros Hin. unfold EX in Hin. apply filter_In in Hin as [_ Hin].
+          rewrite (proj2 (RefTheory.memN_In p NP) Hp) in Hin. discriminate. }
+        rewrite Eex. unfold Hv in *. destruct (memN p UK); [rewrite Hnz|]; left; reflexivity.
+      - right. apply po_memN_false in Eop. destruct (K2a p Hp Eop) as [Huk _].
+        assert (Hne : ~ In p BT).
+        { intros Hin. apply (proj1 (RefTheory.sortN_In _ _)) in Hin. apply in_map_iff in Hin as (x' & <- & Hx').
+          destruct (node_locc H HO s x' (Hxds_lay x' Hx') (Hxds_leaf x' Hx')) as (k0 & lo & c & He & Ho & _).
+          assert (Lx : locc H HO s (CLeaf (nhash x')) (nrow x') (noff x')) by (exists k0, lo, c; auto).
+          change (npos R x') with (pos R (nrow x') (noff x')) in Hnz. rewrite (VAL _ _ _ Lx) in Hnz.
+          cbn [RefTheory.prune] in Hnz.
+          rewrite (proj2 (memH_In H HO HOK (nhash x') hs)) in Hnz by (rewrite <- Hxds_hash; apply in_map, Hx').
+          congruence. }
+        unfold miss. apply in_map_iff. exists p. split; [unfold Hv; rewrite Huk; reflexivity|].
+        apply filter_In. split; [|exact Huk]. unfold MP. apply filter_In. split.
+        + apply filter_In. split; [exact Hp|]. apply negb_true_iff, po_memN_false. exact Eop.
+        + apply negb_true_iff, po_memN_false. exact Hne. }
+    assert (NdK : NoDup (map fst (kept ++ miss))).
+    { rewrite map_app. apply NoDup_app_intro.
+      - unfold kept. assert (Hnd0 : NoDup OP) by (apply pps_SSlt_NoDup; exact HsP).
+        assert (G : forall l, NoDup l -> NoDup (map fst (flat_map (keep1 H HO F U EX UK) l)) /\
+                    forall q, In q (map fst (flat_map (keep1 H HO F U EX UK) l)) -> In q l).
+        { induction l as [|p l IH]; intros Hl; [split; [constructor|intros q []]|].
+          inversion Hl as [|x y Hn Hl']; subst. destruct (IH Hl') as [I1 I2]. cbn [flat_map]. rewrite map_app.
+          assert (Cnil : NoDup (map fst (flat_map (keep1 H HO F U EX UK) l)) /\
+                         (forall q : N, In q (map fst (flat_map (keep1 H HO F U EX UK) l)) -> In q (p :: l))).
+          { split; [exact I1|]. intros q Hq. right. exact (I2 q Hq). }
+          assert (Ccons : NoDup (p :: map fst (flat_map (keep1 H HO F U EX UK) l)) /\
+                          (forall q : N, In q (p :: map fst (flat_map (keep1 H HO F U EX UK) l)) -> In q (p :: l))).
+          { split; [constructor; [intros Hin; exact (Hn (I2 p Hin))|exact I1]|].
+            intros q [<-|Hq]; [left; reflexivity|right; exact (I2 q Hq)]. }
+          unfold keep1 at 1 3. destruct (memN p EX); [exact Cnil|]. destruct (memN p UK).
+          - destruct (op_eqb HO (U p) (op_empty HO)); [exact Cnil|exact Ccons].
+          - exact Ccons. }
+        exact (proj1 (G OP Hnd0)).
+      - unfold miss. rewrite po_gr_fst. apply pps_SSlt_NoDup, po_filter_SS, HsMP.
+      - intros q Hq1 Hq2. apply in_map_iff in Hq1 as (e1 & <- & He1). 
+        unfold kept in He1. apply in_flat_map in He1 as (p & Hp & He1).
+        assert (Efe : fst e1 = p).
+        { unfold keep1 in He1. destruct (memN p EX); [destruct He1|]. destruct (memN p UK).
+          - destruct (op_eqb HO (U p) (op_empty HO)); [destruct He1|]. destruct He1 as [<-|[]]. reflexivity.
+          - destruct He1 as [<-|[]]. reflexivity. }
+        rewrite Efe in Hq2. unfold miss in Hq2. rewrite po_gr_fst in Hq2.
+        apply filter_In in Hq2 as [Hq2 _]. unfold MP in Hq2. apply filter_In in Hq2 as [Hq2 _].
+        apply filter_In in Hq2 as [_ Hq2]. rewrite (proj2 (RefTheory.memN_In p OP) Hp) in Hq2. discriminate. }
+    (* an inner occurrence both of whose children survive, after the deletion *)
+    assert (MVgen : forall h l rr r o l' rr', locc H HO s (CNode h l rr) (Datatypes.S r) o ->
+              prune l = Some l' -> prune rr = Some rr' ->
+              exists r1 o1, liftc Dd (Datatypes.S r, o) = (Datatypes.S r1, o1) /\
+                liftc Dd (r, 2 * o) = (r1, 2 * o1) /\ liftc Dd (r, 2 * o + 1) = (r1, 2 * o1 + 1) /\
+                locc H HO s1 (CNode (op_hash2 HO (chash l') (chash rr')) l' rr') (Datatypes.S r1) o1 /\
+                locc H HO s1 l' r1 (2 * o1) /\ locc H HO s1 rr' r1 (2 * o1 + 1)).
+    { intros h l rr r o l' rr' Hlp Pl Pr.
+      destruct (locc_child H HO s _ _ _ Hlp h l rr eq_refl) as (r' & Er & Ll & Lr). injection Er as <-.
+      assert (PT : prune (CNode h l rr) = Some (CNode (op_hash2 HO (chash l') (chash rr')) l' rr'))
+        by (cbn [RefTheory.prune]; rewrite Pl, Pr; reflexivity).
+      pose proof (A3 _ _ _ _ Hlp PT) as UT. pose proof (A3 _ _ _ _ Ll Pl) as Ul.
+      pose proof (A3 _ _ _ _ Lr Pr) as Ur.
+      destruct (liftc Dd (Datatypes.S r, o)) as [rt ot] eqn:Et. cbn [fst snd] in UT.
+      destruct (locc_child H HO s1 _ _ _ UT _ _ _ eq_refl) as (r1 & Er1 & Ll1 & Lr1). subst rt.
+      exists r1, ot. split; [reflexivity|].
+      rewrite (surjective_pairing (liftc Dd (r, 2 * o))), (surjective_pairing (liftc Dd (r, 2 * o + 1))).
+      split; [exact (locc_once HO s1 l' _ _ _ _ Hnd1 Ul Ll1)|].
+      split; [exact (locc_once HO s1 rr' _ _ _ _ Hnd1 Ur Lr1)|]. auto. }
+    assert (Hnr1 : forall h l rr r o c0 o0, locc H HO s1 (CNode h l rr) (Datatypes.S r) o ->
+              (c0 = l /\ o0 = 2 * o) \/ (c0 = rr /\ o0 = 2 * o + 1) -> is_root_c n (cN (r, o0)) = false).
+    { intros h l rr r o c0 o0 Hlp Hc.
+      destruct (locc_child_node H HO s1 h l rr r o Hlp c0 o0 Hc) as (y & Hy & Yr & Yo & _ & Ynr & _).
+      pose proof (rf_root_true H HO s1 y Hy Ynr) as Hrt. rewrite length_kill in Hrt.
+      unfold ncrd in Hrt. rewrite Yr, Yo in Hrt. exact Hrt. }
+    (* a needed old position whose subtree survives, after the deletion *)
+    assert (MV : forall p c r o c', In p NP -> locc H HO s c r o -> p = pos R r o -> prune c = Some c' ->
+              locc H HO s1 c' (fst (liftc Dd (r, o))) (snd (liftc Dd (r, o))) /\
+              In (cpos R (liftc Dd (r, o))) NP1 /\ is_root_c n (cN (liftc Dd (r, o))) = false).
+    { intros p c r o c' Hp Hl Ep Pc. split; [exact (A3 _ _ _ _ Hl Pc)|].
+      apply NPT in Hp as (h & k & pr & r0 & o0 & b & Hlp & Hk & Hnpr & Ep' & Lpr & Lk).
+      rewrite Ep in Ep'. destruct (Hposinj _ _ _ _ _ _ Hl Lpr Ep') as [Ec ->]. apply pair_equal_spec in Ec as [-> ->].
+      destruct (prune k) as [k'|] eqn:Pk; [|exfalso; exact (Hhit_some k Hk Pk)].
+      destruct b.
+      - destruct (MVgen h pr k r0 o0 c' k' Hlp Pc Pk) as (r1 & o1 & E0 & E1 & E2 & LT & L1 & L2).
+        change (if true then 0 else 1) with 0. rewrite N.add_0_r, E1. split.
+        + apply N1T. exists (op_hash2 HO (chash c') (chash k')), k', c', r1, o1, true.
+          rewrite !N.add_0_r. repeat split; try assumption.
+          * apply (Hhit_pr k k' Pk), Hk.
+          * intros Hu. apply Hnpr. apply (Hhit_pr pr c' Pc), Hu.
+        + apply (Hnr1 _ _ _ _ _ c' (2 * o1) LT). left. auto.
+      - destruct (MVgen h k pr r0 o0 k' c' Hlp Pk Pc) as (r1 & o1 & E0 & E1 & E2 & LT & L1 & L2).
+        change (if false then 0 else 1) with 1. rewrite E2. split.
+        + apply N1T. exists (op_hash2 HO (chash k') (chash c')), k', c', r1, o1, false.
+          rewrite !N.add_0_r. repeat split; try assumption.
+          * apply (Hhit_pr k k' Pk), Hk.
+          * intros Hu. apply Hnpr. apply (Hhit_pr pr c' Pc), Hu.
+        + apply (Hnr1 _ _ _ _ _ c' (2 * o1 + 1) LT). right. auto. }
+    (* every needed new position comes from a needed old one *)
+    assert (N1sub : forall p', In p' NP1 -> exists p c r o c', In p NP /\ locc H HO s c r o /\
+              p = pos R r o /\ prune c = Some c' /\ p' = cpos R (liftc Dd (r, o))).
+    { intros p' Hp'. apply N1T in Hp' as (h' & k' & pr' & r' & o' & b & Hlp' & Hk' & Hnpr' & -> & Lpr' & Lk').
+      destruct (A4 _ _ _ Hlp') as (c0 & r0 & o0 & L0 & P0 & E0 & U0).
+      destruct c0 as [x|h0 l0 rr0].
+      { cbn [RefTheory.prune] in P0. destruct (memH HO x hs); [discriminate|]. destruct b; discriminate. }
+      destruct (U0 h0 l0 rr0 eq_refl) as [Nl Nr].
+      destruct (prune l0) as [l0'|] eqn:Pl; [|contradiction]. destruct (prune rr0) as [rr0'|] eqn:Pr; [|contradiction].
+      cbn [RefTheory.prune] in P0. rewrite Pl, Pr in P0. cbn [join] in P0.
+      destruct (locc_child H HO s _ _ _ L0 h0 l0 rr0 eq_refl) as (r00 & Er & Ll0 & Lr0). subst r0.
+      destruct (MVgen h0 l0 rr0 r00 o0 l0' rr0' L0 Pl Pr) as (r1 & o1 & E1 & E2 & E3 & _).
+      rewrite E0 in E1. injection E1 as <- <-.
+      destruct b; injection P0 as _ El Er.
+      - subst l0' rr0'. exists (pos R r00 (2 * o0)), l0, r00, (2 * o0), pr'.
+        split; [|split; [exact Ll0|split; [reflexivity|split; [exact Pl|]]]].
+        + apply NPT. exists h0, rr0, l0, r00, o0, true. rewrite !N.add_0_r. repeat split; try assumption.
+          * apply (Hhit_pr rr0 k' Pr), Hk'.
+          * intros Hu. apply Hnpr'. apply (Hhit_pr l0 pr' Pl), Hu.
+        + rewrite E2, N.add_0_r. reflexivity.
+      - subst l0' rr0'. exists (pos R r00 (2 * o0 + 1)), rr0, r00, (2 * o0 + 1), pr'.
+        split; [|split; [exact Lr0|split; [reflexivity|split; [exact Pr|]]]].
+        + apply NPT. exists h0, l0, rr0, r00, o0, false. rewrite !N.add_0_r. repeat split; try assumption.
+          * apply (Hhit_pr l0 k' Pl), Hk'.
+          * intros Hu. apply Hnpr'. apply (Hhit_pr rr0 pr' Pr), Hu.
+        + rewrite E3. reflexivity. }
+    (* the new proof with coordinates *)
+    destruct (pd_ex_coords R (fun x : coord => exists c, locc H HO s c (fst x) (snd x)) (kept ++ miss))
+      as (XP & EXP & HXP).
+    { intros e He. destruct (K1 e He) as [Hp _].
+      apply NPT in Hp as (h & k & pr & r & o & b & _ & _ & _ & Ep & Lpr & _).
+      exists (r, 2 * o + (if b then 0 else 1)). split; [exists pr; exact Lpr|exact Ep]. }
+    assert (HXPin : forall e, In e XP -> In (cposh H R e) (kept ++ miss)) by (intros e He; rewrite EXP; apply in_map, He).
+    assert (NdXP : NoDup XP).
+    { rewrite EXP, map_map in NdK. exact (NoDup_map_inv _ _ NdK). }
+    (* an entry with a non-zero hash: its subtree survives *)
+    assert (HXPnz : forall e, In e XP -> op_eqb HO (snd e) (op_empty HO) = false ->
+              exists c c', locc H HO s c (fst (fst e)) (snd (fst e)) /\ In (cpos R (fst e)) NP /\
+                           prune c = Some c' /\ snd e = chash c').
+    { intros e He Hnz. destruct (HXP e He) as (c & Hl). destruct (K1 _ (HXPin e He)) as [Hp Hs].
+      unfold cposh in Hp, Hs. cbn [fst snd] in Hp, Hs.
+      change (cpos R (fst e)) with (pos R (fst (fst e)) (snd (fst e))) in Hs. rewrite (VAL _ _ _ Hl) in Hs.
+      destruct (prune c) as [c'|] eqn:Pc; [exists c, c'; auto|]. rewrite Hs in Hnz. congruence. }
+    rewrite EXP.
+    assert (EP : getNewPositions HO (map (cpos R) (map fst Dall)) (map (cposh H R) XP) (num_leaves s) false = gr H F1 NP1).
+    { unfold getNewPositions.
+      rewrite <- (ER : N.of_nat R = TreeRows (num_leaves s)).
+      change (gnp_loop HO (map (cpos R) (map fst Dall)) (map (cposh H R) XP) (num_leaves s) (N.of_nat R) 0 false)
+        with (gnp_loop HO (map (cpos R) (map fst Dall)) (map (cposh H R) XP) n (N.of_nat R) 0 false).
+      rewrite (pd2_gnp_loop H HO R n HR63 Hn63 ER Dall false Hd1 XP 0).
+      - set (XPn := filter (fun e : coord * H => negb (op_eqb HO (snd e) (op_empty HO))) XP).
+        assert (HXPn : forall e, In e XPn -> In e XP /\ op_eqb HO (snd e) (op_empty HO) = false).
+        { intros e He. unfold XPn in He. apply filter_In in He as [A B]. split; [exact A|].
+          apply negb_true_iff, B. }
+        assert (Hs1nz : forall h, In (Some h) s1 -> NZ HO h) by (intros h Hh; apply Hlive_nz, dg2_live1, Hh).
+        apply pd_sortK_graph.
+        + intros e He. apply in_map_iff in He as (e0 & <- & He0). destruct (HXPn e0 He0) as [He1 Hnz].
+          destruct (HXPnz e0 He1 Hnz) as (c & c' & Hl & Hp & Pc & Es).
+          unfold cposh. cbn [fst snd]. rewrite Es.
+          destruct (MV _ c _ _ c' Hp Hl eq_refl Pc) as (Hl1 & _). rewrite <- surjective_pairing in *.
+          rewrite (surjective_pairing (liftc Dd (fst e0))). symmetry. exact (Hval1 c' _ _ Hl1).
+        + rewrite map_map. unfold cposh. cbn [fst snd].
+          apply (RefTheory.NoDup_map_inj_on (fun e : coord * H => cpos R (liftc Dd (fst e))));
+            [apply NoDup_filter, NdXP|].
+          intros e1 e2 He1 He2 Ek. destruct (HXPn e1 He1) as [Hi1 Hz1]. destruct (HXPn e2 He2) as [Hi2 Hz2].
+          destruct (HXPnz e1 Hi1 Hz1) as (c1 & c1' & L1 & P1 & Pc1 & Es1).
+          destruct (HXPnz e2 Hi2 Hz2) as (c2 & c2' & L2 & P2 & Pc2 & Es2).
+          destruct (MV _ c1 _ _ c1' P1 L1 eq_refl Pc1) as (M1 & _).
+          destruct (MV _ c2 _ _ c2' P2 L2 eq_refl Pc2) as (M2 & _).
+          rewrite <- surjective_pairing in M1, M2.
+          assert (Ec' : c1' = c2').
+          { destruct (locc_node H HO s1 _ _ _ M1) as (y1 & Y1 & Yr1 & Yo1 & _).
+            destruct (locc_node H HO s1 _ _ _ M2) as (y2 & Y2 & Yr2 & Yo2 & _).
+            assert (Ey : y1 = y2).
+            { apply (RefTheory.layout_npos_inj H HO s1 y1 y2 Y1 Y2). rewrite ER1. unfold npos.
+              rewrite Yr1, Yo1, Yr2, Yo2. exact Ek. }
+            subst y2. assert (Ecc : liftc Dd (fst e1) = liftc Dd (fst e2)).
+            { rewrite (surjective_pairing (liftc Dd (fst e1))), (surjective_pairing (liftc Dd (fst e2))). congruence. }
+            rewrite Ecc in M1. exact (locc_uniq H HO s1 _ _ _ _ M1 M2). }
+          subst c2'.
+          destruct (cleaves H c1') as [|x xs] eqn:Ecl; [exfalso; exact (cleaves_nonnil H c1' Ecl)|].
+          assert (X1 : In x (cleaves H c1)) by (apply (prune_leaves H HO HOK hs c1 c1' Pc1 x); rewrite Ecl; left; reflexivity).
+          assert (X2 : In x (cleaves H c2)) by (apply (prune_leaves H HO HOK hs c2 c1' Pc2 x); rewrite Ecl; left; reflexivity).
+          apply NPT in P1 as (h1 & k1 & pr1 & r1 & o1 & b1 & Hlp1 & Hk1 & Hn1 & Ep1 & Lpr1 & _).
+          apply NPT in P2 as (h2 & k2 & pr2 & r2 & o2 & b2 & Hlp2 & Hk2 & Hn2 & Ep2 & Lpr2 & _).
+          destruct (Hposinj _ _ _ _ _ _ L1 Lpr1 Ep1) as [Ec1 ->].
+          destruct (Hposinj _ _ _ _ _ _ L2 Lpr2 Ep2) as [Ec2 ->].
+          pose proof (canon_sides_disjoint H HO s Hnd sortedS h1 k1 pr1 r1 o1 b1 h2 k2 pr2 r2 o2 b2 x
+                        Hlp1 Hlp2 Hk1 Hn1 Hk2 Hn2 X1 X2) as Ecoord.
+          assert (Ef : fst e1 = fst e2).
+          { rewrite (surjective_pairing (fst e1)), (surjective_pairing (fst e2)). congruence. }
+          destruct (K1 _ (HXPin e1 Hi1)) as [_ Hs1]. destruct (K1 _ (HXPin e2 Hi2)) as [_ Hs2].
+          unfold cposh in Hs1, Hs2. cbn [fst snd] in Hs1, Hs2.
+          destruct e1 as [x1 v1], e2 as [x2 v2]. cbn [fst snd] in *. subst x2. congruence.
+        + pose proof (po_canon_pos_SSlt H HO s1 Hn63' sortedU LSU) as Hx. rewrite ER1 in Hx. exact Hx.
+        + intros p. rewrite map_map. unfold cposh. cbn [fst snd]. split.
+          * intros Hp. apply in_map_iff in Hp as (e & <- & He). destruct (HXPn e He) as [Hi Hz].
+            destruct (HXPnz e Hi Hz) as (c & c' & L & P & Pc & _).
+            destruct (MV _ c _ _ c' P L eq_refl Pc) as (_ & Hin & _).
+            rewrite <- surjective_pairing in Hin. exact Hin.
+          * intros Hp. destruct (N1sub p Hp) as (p0 & c & r & o & c' & Hp0 & L & -> & Pc & ->).
+            destruct (MV _ c r o c' Hp0 L eq_refl Pc) as (M1 & _).
+            assert (Hnz : op_eqb HO (Hv (pos R r o)) (op_empty HO) = false).
+            { rewrite (VAL _ _ _ L), Pc. exact (locc_nz H HO s1 c' _ _ hash_nz Hs1nz M1). }
+            pose proof (K2 _ Hp0 Hnz) as Hin. rewrite EXP in Hin. apply in_map_iff in Hin as (e & Ee & He).
+            unfold cposh in Ee. injection Ee as Ee1 Ee2.
+            destruct (HXP e He) as (ce & Le).
+            destruct (Hposinj _ _ _ _ _ _ Le L Ee1) as [Ecoord _].
+            apply in_map_iff. exists e. split.
+            -- rewrite (surjective_pairing (fst e)), Ecoord. reflexivity.
+            -- unfold XPn. apply filter_In. split; [exact He|]. rewrite Ee2. apply negb_true_iff. exact Hnz.
+      - lia.
+      - intros e He. destruct (HXP e He) as (c & Hl). rewrite (surjective_pairing (fst e)). exact (HcokL _ _ _ Hl).
+      - intros e He Hnz. destruct (HXPnz e He Hnz) as (c & c' & L & _ & Pc & _).
+        rewrite (surjective_pairing (fst e)). exact (A2s _ _ _ _ L Pc).
+      - intros e He Hnz. right. destruct (HXPnz e He Hnz) as (c & c' & L & P & Pc & _).
+        destruct (MV _ c _ _ c' P L eq_refl Pc) as (_ & _ & Hr). rewrite <- surjective_pairing in Hr.
+        exact Hr. }
+    rewrite EP. unfold hashes, positions. rewrite !po_gr_snd, po_gr_fst. unfold NP1.
+    rewrite <- ER1.
+    rewrite <- (po_hashes_Fv H HO s1 sortedU LSU).
+    rewrite <- (po_canon_hashes_Fv H HO s1 Hn63' sortedU LSU). reflexivity.
+  Qed.
+
+
+  (** G3 from the same hypotheses: the remove part, then [ProofUpdateSpec.ag_both] on [kill hs s] *)
+  Variable adds : list H.
+  Variable rem : list N.
+  Hypothesis Hb : N.of_nat (length s + length adds) <= 2 ^ 63.
+  Hypothesis Hnd2 : NoDup (live (s1 ++ map Some adds)).
+  Hypothesis Hrem : SSlt rem.
+  Hypothesis Hcol : forall x, In x (layout HO (s1 ++ map Some adds)) -> nleaf x = false ->
+                              ~ In (nhash x) (pick adds rem).
+
+  Theorem dg2_block :
+    proof_update HO tC pC hC adds bt rem (ud_of_spec (spec_update_data HO s hs adds))
+    = exp_cached HO (mk_ctx HO (apply_block HO s hs adds)) (cached_after HO C hs (pick adds rem)) /\
+    exp_cached HO (mk_ctx HO (apply_block HO s hs adds)) (cached_after HO C hs (pick adds rem)) <> None.
+  Proof.
+    destruct dg2_remove as [Erem Hsome].
+    destruct (exp_cached HO (mk_ctx HO s1) (removeH HO C hs)) as [[[h1 t1] p1]|] eqn:E1; [|contradiction].
+    assert (Hs1nz : forall h, In (Some h) s1 -> NZ HO h) by (intros h Hh; apply Hlive_nz, dg2_live1, Hh).
+    assert (Hb1 : N.of_nat (length s1 + length adds) <= 2 ^ 63) by (rewrite length_kill; exact Hb).
+    assert (NdS : NoDup (removeH HO C hs)) by (unfold removeH; apply NoDup_filter, HC).
+    destruct (ag_both H HO HOK hash_nz s1 adds Hs1nz Hb1 Hnd2 (removeH HO C hs) rem NdS Hrem Hcol
+                h1 t1 p1 E1) as [_ Eadd].
+    unfold proof_update, ud_of_spec, spec_update_data.
+    cbn [u_del u_prev u_add u_to_destroy ud_new_del ud_prev_num_leaves ud_new_add ud_to_destroy].
+    rewrite Erem. unfold apply_block, cached_after.
+    assert (En : num_leaves s = num_leaves s1) by (unfold num_leaves; rewrite length_kill; reflexivity).
+    rewrite En. exact Eadd.
+  Qed.
+End DelGen2.
+Print Assumptions dg2_block.
+
+(** * 5. [deTwin]: the roots of the maximal deleted subtrees *)
+
+(** ** 5.1 The loop of [deTwin], abstractly *)
+
+Lemma rightSib_cases a : rightSib a = a \/ rightSib a = a + 1.
+Proof. unfold rightSib, Bits64.or64. rewrite lor_1. destruct (N.even a); [right|left]; reflexivity. Qed.
+
+Lemma insertInOrder_app_gt l1 : forall l2 el, (forall x, In x l1 -> x < el) ->
+  insertInOrder (l1 ++ l2) el = l1 ++ insertInOrder l2 el.
+Proof.
+  induction l1 as [|y t IH]; intros l2 el Hlt; [reflexivity|]. cbn [app insertInOrder].
+  assert (Hy : y < el) by (apply Hlt; left; reflexivity).
+  destruct (N.ltb_spec el y) as [Hc|_]; [lia|]. f_equal. apply IH. intros x Hx. apply Hlt. right. exact Hx.
+Qed.
+
+Lemma insertInOrder_In l : forall el x, In x (insertInOrder l el) <-> x = el \/ In x l.
+Proof.
+  induction l as [|y t IH]; intros el x; cbn [insertInOrder].
+  - cbn [In]. intuition.
+  - destruct (el <? y); cbn [In]; [intuition|]. rewrite IH. intuition.
+Qed.
+
+Lemma insertInOrder_length l : forall el, length (insertInOrder l el) = S (length l).
+Proof.
+  induction l as [|y t IH]; intros el; cbn [insertInOrder]; [reflexivity|].
+  destruct (el <? y); cbn [length]; [reflexivity|]. rewrite IH. reflexivity.
+Qed.
+
+Lemma insertInOrder_SS l : forall el, SSlt l -> ~ In el l -> SSlt (insertInOrder l el).
+Proof.
+  induction l as [|y t IH]; intros el Hs Hn; cbn [insertInOrder]; [repeat constructor|].
+  destruct (po_SS_inv _ _ _ Hs) as [Hs' Hy].
+  destruct (N.ltb_spec el y) as [Hc|Hc].
+  - constructor; [exact Hs|]. apply Forall_forall. intros x [<-|Hx]; [exact Hc|]. specialize (Hy x Hx). lia.
+  - constructor; [apply IH; [exact Hs'|intros Hi; apply Hn; right; exact Hi]|].
+    apply Forall_forall. intros x Hx. apply insertInOrder_In in Hx as [->|Hx]; [|apply Hy, Hx].
+    assert (el <> y) by (intros ->; apply Hn; left; reflexivity). lia.
+Qed.
+
+Lemma nth_split2 {A} (l : list A) i a b : nth_error l i = Some a -> nth_error l (S i) = Some b ->
+  l = firstn i l ++ a :: b :: skipn (S (S i)) l /\ length (firstn i l) = i.
+Proof.
+  revert l. induction i as [|i IH]; intros l Ha Hb.
+  - destruct l as [|x [|y t]]; cbn in *; try discriminate. injection Ha as ->. injection Hb as ->. split; reflexivity.
+  - destruct l as [|x t]; [discriminate|]. cbn [nth_error] in Ha, Hb. destruct (IH t Ha Hb) as [E L].
+    cbn [firstn skipn app length]. split; [f_equal; exact E|f_equal; exact L].
+Qed.
+
+Lemma SS_app_lt l1 : forall l2, SSlt (l1 ++ l2) -> forall x y, In x l1 -> In y l2 -> x < y.
+Proof.
+  induction l1 as [|z t IH]; intros l2 Hs x y Hx Hy; [destruct Hx|].
+  cbn [app] in Hs. destruct (po_SS_inv _ _ _ Hs) as [Hs' Hz]. destruct Hx as [<-|Hx].
+  - apply Hz, in_or_app. right. exact Hy.
+  - exact (IH l2 Hs' x y Hx Hy).
+Qed.
+
+Section TwinLoop.
+  Variable P : list N -> Prop.
+  Variable fr : N.
+  Hypothesis P_sorted : forall l, P l -> SSlt l.
+  Hypothesis P_step : forall l1 a b l2, P (l1 ++ a :: b :: l2) -> rightSib a = b ->
+    a < Parent a fr /\ ~ In (Parent a fr) (l1 ++ l2) /\ P (insertInOrder (l1 ++ l2) (Parent a fr)).
+
+  Definition checked (i : nat) (l : list N) : Prop :=
+    forall j a b, (j < i)%nat -> nth_error l j = Some a -> nth_error l (S j) = Some b -> rightSib a <> b.
+
+  Lemma checked_all i l : checked i l -> (length l <= S i)%nat -> forall i', checked i' l.
+  Proof.
+    intros Hc Hl i' j a b _ Ha Hb. apply (Hc j a b); [|exact Ha|exact Hb].
+    assert (S j < length l)%nat by (apply nth_error_Some; congruence). lia.
+  Qed.
+
+  Lemma deTwin_loop_spec : forall fuel i l, P l -> checked i l -> (2 * length l <= fuel + i)%nat ->
+    P (deTwin_loop fuel i l fr) /\ forall i', checked i' (deTwin_loop fuel i l fr).
+  Proof.
+    induction fuel as [|f IH]; intros i l HP Hc Hf; cbn [deTwin_loop].
+    - split; [exact HP|]. apply (checked_all i); [exact Hc|lia].
+    - destruct (nth_error l i) as [a|] eqn:Ea.
+      2:{ split; [exact HP|]. apply (checked_all i); [exact Hc|]. apply nth_error_None in Ea. lia. }
+      destruct (nth_error l (S i)) as [b|] eqn:Eb.
+      2:{ split; [exact HP|]. apply (checked_all i); [exact Hc|]. apply nth_error_None in Eb. lia. }
+      destruct (N.eqb_spec (rightSib a) b) as [Et|Et].
+      + destruct (nth_split2 l i a b Ea Eb) as [El Li].
+        set (l1 := firstn i l) in *. set (l2 := skipn (S (S i)) l) in *.
+        pose proof (P_sorted l HP) as Hs. rewrite El in Hs.
+        assert (HP' : P (l1 ++ a :: b :: l2)) by (rewrite <- El; exact HP).
+        destruct (P_step l1 a b l2 HP' Et) as (Hap & Hnin & HPn).
+        assert (H1a : forall x, In x l1 -> x < a).
+        { intros x Hx. apply (SS_app_lt l1 (a :: b :: l2) Hs x a Hx). left. reflexivity. }
+        assert (Hins : insertInOrder (l1 ++ l2) (Parent a fr) = l1 ++ insertInOrder l2 (Parent a fr)).
+        { apply insertInOrder_app_gt. intros x Hx. specialize (H1a x Hx). lia. }
+        apply IH; [exact HPn| |].
+        * rewrite Hins. intros j x y Hj Hx Hy.
+          assert (Hxl : nth_error l j = Some x).
+          { rewrite nth_error_app1 in Hx by lia. rewrite El, nth_error_app1 by lia. exact Hx. }
+          destruct (Nat.eq_dec (S j) i) as [Ej|Ej].
+          -- (* the new neighbour is larger than [a] *)
+             rewrite nth_error_app2 in Hy by lia. apply nth_error_In in Hy.
+             assert (Hya : a < y).
+             { apply insertInOrder_In in Hy as [->|Hy]; [exact Hap|].
+               assert (Hs2 : SSlt ((l1 ++ [a]) ++ b :: l2)) by (rewrite <- app_assoc; exact Hs).
+               apply (SS_app_lt _ _ Hs2 a y); [apply in_or_app; right; left; reflexivity|right; exact Hy]. }
+             assert (Hxa : x < a) by (apply H1a; rewrite nth_error_app1 in Hx by lia; apply nth_error_In in Hx; exact Hx).
+             destruct (rightSib_cases x) as [->| ->]; lia.
+          -- rewrite nth_error_app1 in Hy by lia.
+             apply (Hc j x y); [lia|exact Hxl|]. rewrite El, nth_error_app1 by lia. exact Hy.
+        * assert (Hl : length l = (length l1 + 2 + length l2)%nat) by (rewrite El at 1; rewrite app_length; cbn [length]; lia).
+          rewrite insertInOrder_length, app_length.
+          lia.
+      + apply IH; [exact HP| |lia].
+        intros j x y Hj Hx Hy. destruct (Nat.eq_dec j i) as [->|Hji].
+        * rewrite Ea in Hx. rewrite Eb in Hy. congruence.
+        * apply (Hc j x y); [lia|exact Hx|exact Hy].
+  Qed.
+End TwinLoop.
+
+(** ** 5.2 Positions and coordinates of twins *)
+
+Lemma cpos_lt_clt R x y : cvalid R x -> cvalid R y -> clt x y -> cpos R x < cpos R y.
+Proof.
+  intros [X1 X2] [Y1 Y2] Hc. rewrite !cpos_gpos. destruct Hc as [Hr|[Hr Ho]].
+  - apply gpos_row_mono; lia.
+  - rewrite Hr. unfold gpos. lia.
+Qed.
+
+Lemma cpos_inj2 R x y : cvalid R x -> cvalid R y -> cpos R x = cpos R y -> x = y.
+Proof.
+  intros [X1 X2] [Y1 Y2] E. rewrite !cpos_gpos in E.
+  apply gpos_inj in E as [Er Eo]; [|lia|exact X2|lia|exact Y2].
+  destruct x, y. cbn [fst snd] in *. f_equal; lia.
+Qed.
+
+Lemma clt_total x y : clt x y \/ x = y \/ clt y x.
+Proof.
+  destruct x as [r o], y as [r' o']. unfold clt. cbn [fst snd].
+  destruct (lt_eq_lt_dec r r') as [[L|E]|G]; [left; left; exact L| |right; right; left; exact G].
+  subst r'. destruct (N.lt_trichotomy o o') as [L|[E|G]]; [left; right; auto|right; left; subst; reflexivity|right; right; right; auto].
+Qed.
+
+Lemma twin_coords R xa xb : (R <= 63)%nat -> cvalid R xa -> cvalid R xb -> cpos R xa < cpos R xb ->
+  rightSib (cpos R xa) = cpos R xb ->
+  fst xb = fst xa /\ snd xb = snd xa + 1 /\ N.even (snd xa) = true /\ (fst xa < R)%nat.
+Proof.
+  intros HR [A1 A2] [B1 B2] Hlt E.
+  assert (Ea : N.even (cpos R xa) = true /\ cpos R xb = cpos R xa + 1).
+  { unfold rightSib, Bits64.or64 in E. rewrite lor_1 in E. destruct (N.even (cpos R xa)); [split; [reflexivity|lia]|lia]. }
+  destruct Ea as [Ev E1]. rewrite !cpos_gpos in *. rewrite gpos_even in Ev by lia.
+  destruct (Nat.eq_dec (fst xa) R) as [Er|Er].
+  - exfalso. pose proof (gpos_lt (N.of_nat R) (N.of_nat (fst xb)) (snd xb) ltac:(lia) B2) as Hb.
+    rewrite Er, N.sub_diag in A2. assert (snd xa = 0) by (cbn in A2; lia).
+    rewrite E1, Er, H in Hb. unfold gpos, gstart in Hb.
+    replace (N.of_nat R + 1 - N.of_nat R) with 1 in Hb by lia.
+    assert (1 <= 2 ^ (N.of_nat R - N.of_nat (fst xb))) by (pose proof (UtilsGeom.pow2_pos (N.of_nat R - N.of_nat (fst xb))); lia).
+    assert (2 <= 2 ^ (N.of_nat R + 1)) by (rewrite pow2_S; pose proof (UtilsGeom.pow2_pos (N.of_nat R)); lia).
+    cbn in Hb. lia.
+  - assert (Hs : snd xa + 1 < 2 ^ (N.of_nat R - N.of_nat (fst xa))).
+    { destruct (sib_offsets_lt (N.of_nat R) (N.of_nat (fst xa)) (snd xa) ltac:(lia) A2) as (_ & Hl & _).
+      rewrite lor_1, Ev in Hl. exact Hl. }
+    assert (E2 : gpos (N.of_nat R) (N.of_nat (fst xb)) (snd xb) = gpos (N.of_nat R) (N.of_nat (fst xa)) (snd xa + 1))
+      by (rewrite E1; unfold gpos; lia).
+    apply gpos_inj in E2 as [Er' Eo]; [|lia|exact B2|lia|exact Hs].
+    repeat split; [lia|exact Eo|exact Ev|lia].
+Qed.
+
+Lemma parent_cpos R n x : (R <= 63)%nat -> N.of_nat R = TreeRows n -> cvalid R x -> (fst x < R)%nat ->
+  Parent (cpos R x) (TreeRows n) = cpos R (S (fst x), snd x / 2).
+Proof.
+  intros HR ER [X1 X2] Hlt. rewrite !cpos_gpos, <- ER. cbn [fst snd].
+  rewrite Parent_gpos by (try exact X2; lia). f_equal. lia.
+Qed.
+
+(** insertion by position, on coordinates *)
+Fixpoint insC (R : nat) (L : list coord) (p : coord) : list coord :=
+  match L with
+  | [] => [p]
+  | y :: t => if cpos R p <? cpos R y then p :: L else y :: insC R t p
+  end.
+
+Lemma insC_map R L : forall p, map (cpos R) (insC R L p) = insertInOrder (map (cpos R) L) (cpos R p).
+Proof.
+  induction L as [|y t IH]; intros p; cbn [insC map insertInOrder]; [reflexivity|].
+  destruct (cpos R p <? cpos R y); cbn [map]; [reflexivity|]. rewrite IH. reflexivity.
+Qed.
+
+Lemma insC_In R L : forall p x, In x (insC R L p) <-> x = p \/ In x L.
+Proof.
+  induction L as [|y t IH]; intros p x; cbn [insC].
+  - cbn [In]. intuition.
+  - destruct (cpos R p <? cpos R y); cbn [In]; [intuition|]. rewrite IH. intuition.
+Qed.
+
+Lemma SS_app_drop {A} (lt : A -> A -> Prop) l1 : forall m l2, StronglySorted lt (l1 ++ m ++ l2) -> StronglySorted lt (l1 ++ l2).
+Proof.
+  induction l1 as [|x t IH]; intros m l2 Hs.
+  - cbn [app] in *. induction m as [|y m IHm]; [exact Hs|]. apply IHm. cbn [app] in Hs. inversion Hs; assumption.
+  - cbn [app] in *. inversion Hs as [|? ? Hs' Hx]; subst. constructor; [exact (IH m l2 Hs')|].
+    rewrite Forall_forall in *. intros y Hy. apply Hx. apply in_app_or in Hy as [Hy|Hy]; apply in_or_app; [left; exact Hy|].
+    right. apply in_or_app. right. exact Hy.
+Qed.
+
+Lemma SS_adjacent l : forall a, SSlt l -> In a l -> In (a + 1) l ->
+  exists j, nth_error l j = Some a /\ nth_error l (S j) = Some (a + 1).
+Proof.
+  induction l as [|x t IH]; intros a Hs Ha Hb; [destruct Ha|].
+  destruct (po_SS_inv _ _ _ Hs) as [Hs' Hx].
+  destruct Ha as [->|Ha].
+  - destruct Hb as [Hb|Hb]; [lia|]. exists 0%nat. split; [reflexivity|].
+    destruct t as [|y t']; [destruct Hb|]. cbn [nth_error]. f_equal.
+    pose proof (Hx y (or_introl eq_refl)) as Hy.
+    destruct Hb as [Hb|Hb]; [exact Hb|].
+    destruct (po_SS_inv _ _ _ Hs') as [_ Hy']. specialize (Hy' _ Hb). lia.
+  - destruct Hb as [Hb|Hb]; [specialize (Hx a Ha); lia|].
+    destruct (IH a Hs' Ha Hb) as (j & A & B). exists (S j). split; [exact A|exact B].
+Qed.
+
+(** ** 5.3 Subtrees of the forest below one another *)
+
+Lemma under_same_row a b : under a b -> fst a = fst b -> a = b.
+Proof.
+  intros [_ E] Hr. rewrite Hr, Nat.sub_diag, N.div_1_r in E. destruct a, b. cbn [fst snd] in *. congruence.
+Qed.
+
+Lemma under_antisym a b : under a b -> under b a -> a = b.
+Proof. intros H1 H2. apply under_same_row; [exact H1|]. destruct H1, H2. lia. Qed.
+
+Lemma under_child_split x e : under x e -> (fst e < fst x)%nat ->
+  under (chd 0 x) e \/ under (chd 1 x) e.
+Proof.
+  intros [Hr E] Hlt. set (j := (fst x - fst e)%nat) in *.
+  assert (Ej : N.of_nat j = 1 + N.of_nat (j - 1)) by lia.
+  rewrite Ej, N.pow_add_r, N.pow_1_r, N.mul_comm, <- N.div_div in E by (try apply pow2_nz; lia).
+  set (v := snd e / 2 ^ N.of_nat (j - 1)) in *.
+  pose proof (N.div_mod v 2 ltac:(lia)) as Hd. pose proof (N.mod_lt v 2 ltac:(lia)) as Hm. rewrite E in Hd.
+  assert (Hc : v = 2 * snd x + 0 \/ v = 2 * snd x + 1) by lia.
+  unfold under, chd. cbn [fst snd].
+  replace (Nat.pred (fst x) - fst e)%nat with (j - 1)%nat by lia.
+  destruct Hc as [Hc|Hc]; [left|right]; (split; [lia|]); fold v; exact Hc.
+Qed.
+
+Lemma under_comparable a b l : under a l -> under b l -> (fst a <= fst b)%nat -> under b a.
+Proof.
+  intros [Ha Ea] [Hb Eb] Hab. split; [exact Hab|]. rewrite <- Ea, <- Eb.
+  replace (N.of_nat (fst b - fst l)) with (N.of_nat (fst a - fst l) + N.of_nat (fst b - fst a)) by lia.
+  rewrite N.pow_add_r, <- N.div_div by apply pow2_nz. reflexivity.
+Qed.
+
+Section TwinSem.
+  Variable H : Type.
+  Variable HO : ops H.
+  Hypothesis HOK : ops_ok HO.
+  Variable s : slots H.
+  Hypothesis Hn63 : N.of_nat (length s) <= 2 ^ 63.
+  Hypothesis Hnd : NoDup (live s).
+  Variable hs : list H.
+  Local Notation prune := (RefTheory.prune HO hs).
+  Local Notation entry := (StumpAdd.entry H).
+  Local Notation erow := (@StumpAdd.erow H).
+  Local Notation ecoord := (@StumpAddData.ecoord H).
+
+  (** a subtree all of whose leaves are deleted *)
+  Definition fdc (x : coord) : Prop := exists c, locc H HO s c (fst x) (snd x) /\ prune c = None.
+
+  (** the structural reading of [under] for two subtrees of the forest *)
+  Lemma locc_under c1 r1 o1 c2 r2 o2 : locc H HO s c1 r1 o1 -> locc H HO s c2 r2 o2 ->
+    under (r1, o1) (r2, o2) -> occ H c1 r1 o1 c2 r2 o2.
+  Proof.
+    intros L1 L2 Hu. destruct (occp_some_leaf c2) as (pi & h & Hp).
+    pose proof (locc_height H HO s _ _ _ L2) as H2. pose proof (occp_height H _ _ _ Hp) as Hh. cbn [cheight] in Hh.
+    pose proof (path_occ H c2 pi (CLeaf h) Hp (r2, o2) ltac:(cbn [fst]; lia)) as Ol. cbn [fst snd] in Ol.
+    set (l := walk (r2, o2) pi) in *.
+    assert (Hul : under (r2, o2) l) by (apply under_walk; cbn [fst]; lia).
+    pose proof (under_trans _ _ _ Hu Hul) as Hxl.
+    destruct L2 as (k & lo & cT & He & Ho2).
+    pose proof (occ_trans H _ _ _ _ _ _ _ _ _ Ho2 Ol) as OlT.
+    (* the tree of [c1] is the same *)
+    destruct L1 as (k' & lo' & cT' & He' & Ho1).
+    destruct (locc_entry_node H HO s _ _ _ _ _ _ He OlT) as (yl & Yle & _ & Ylr & Ylo & _).
+    destruct (locc_entry_node H HO s _ _ _ _ _ _ He' Ho1) as (y1 & Y1e & _ & Y1r & Y1o & _).
+    assert (Hsame : k' = k /\ lo' = lo /\ Some cT' = Some cT).
+    { apply under_lo in Hxl as [A1 A2]. cbn [fst snd] in A1, A2.
+      apply (layout_same_entry H HO s _ _ _ _ _ _ y1 yl He' He Y1e Yle); unfold nlo, nhi; rewrite Y1r, Y1o, Ylr, Ylo; [exact A1|exact A2]. }
+    destruct Hsame as (-> & -> & E). injection E as ->.
+    (* the ancestor of the leaf at the row of [c1] *)
+    destruct Hxl as [Hr Eq]. cbn [fst snd] in Hr, Eq.
+    destruct (occ_anc H _ _ _ _ _ _ OlT (r1 - fst l)%nat) as (cj & O1 & O2).
+    { pose proof (occ_range H _ _ _ _ _ _ Ho1) as (Hk & _). lia. }
+    replace (fst l + (r1 - fst l))%nat with r1 in O1, O2 by lia. fold (p2 (r1 - fst l)) in Eq. rewrite Eq in O1, O2.
+    assert (Lj : locc H HO s cj r1 o1) by (exists k, lo, cT; auto).
+    assert (L1' : locc H HO s c1 r1 o1) by (exists k, lo, cT; auto).
+    rewrite (locc_uniq H HO s _ _ _ _ L1' Lj).
+    assert (L2' : locc H HO s c2 r2 o2) by (exists k, lo, cT; auto).
+    assert (Hin1 : In h (cleaves H cj)) by (apply (occ_leaves H _ _ _ _ _ _ O2); left; reflexivity).
+    assert (Hin2 : In h (cleaves H c2)) by (apply (occp_leaves H _ _ _ Hp); left; reflexivity).
+    destruct Hu as [Hru _]. cbn [fst] in Hru.
+    exact (locc_nested H HO s Hnd c2 r2 o2 cj r1 o1 h L2' Lj Hin2 Hin1 Hru).
+  Qed.
+
+  Local Notation R := (rows_of (num_leaves s)).
+  Local Notation n := (N.of_nat (length s)).
+  Local Notation total := (TreeRows (N.of_nat (length s))).
+
+  Lemma tw_cvalid c r o : locc H HO s c r o -> cvalid R (r, o).
+  Proof.
+    intros L. destruct (locc_node H HO s _ _ _ L) as (x & Hx & Xr & Xo & _).
+    destruct (layout_coords_rows_of H HO s x Hx) as [A B]. rewrite Xr, Xo in *. split; [exact A|exact B].
+  Qed.
+
+  Lemma tw_cinf c r o : locc H HO s c r o -> cinf n (r, o).
+  Proof.
+    intros L. destruct (locc_node H HO s _ _ _ L) as (x & Hx & Xr & Xo & _).
+    pose proof (layout_coords_valid H HO s x Hx) as A. rewrite Xr, Xo in A. exact A.
+  Qed.
+
+  (** two subtrees at sibling coordinates are the children of a subtree *)
+  Lemma tw_parent ca cb r q : locc H HO s ca r (2 * q) -> locc H HO s cb r (2 * q + 1) ->
+    exists h, locc H HO s (CNode h ca cb) (S r) q.
+  Proof.
+    intros La Lb. pose proof (tw_cinf _ _ _ Lb) as Ib. unfold cinf in Ib. cbn [fst snd] in Ib.
+    destruct La as (k & lo & cT & He & Ho).
+    destruct (occ_parent H _ _ _ _ _ _ Ho) as [(-> & -> & Eo)|(h & l & rr & o1 & Hop & Hc)].
+    - exfalso. pose proof (forest_entry H HO s _ _ _ He) as (_ & _ & E3 & _ & Hlt & _).
+      assert (El : lo / 2 ^ N.of_nat k * 2 ^ N.of_nat k = lo).
+      { rewrite E3 at 1. fold (p2 k). rewrite N.div_mul by (apply N.neq_0_lt_0, p2_pos). symmetry. exact E3. }
+      rewrite <- Eo in El. unfold p2 in Hlt. replace (N.of_nat (S k)) with (N.of_nat k + 1) in Hlt by lia.
+      rewrite pow2_S in Hlt. clear - El Hlt Ib. nia.
+    - destruct Hc as [[<- Eq]|[_ Eq]]; [|exfalso; lia]. assert (o1 = q) by lia. subst o1.
+      assert (Lp : locc H HO s (CNode h ca rr) (S r) q) by (exists k, lo, cT; auto).
+      destruct (locc_child H HO s _ _ _ Lp h ca rr eq_refl) as (r1 & Er & _ & Lr). injection Er as <-.
+      rewrite (locc_uniq H HO s _ _ _ _ Lb Lr). exists h. exact Lp.
+  Qed.
+
+  Lemma tw_prune_node h ca cb : prune ca = None -> prune cb = None -> prune (CNode h ca cb) = None.
+  Proof. intros Pa Pb. cbn [RefTheory.prune]. rewrite Pa, Pb. reflexivity. Qed.
+
+  (** the invariant of the loop: positions of deleted subtrees, no one inside another, covering
+      every deleted leaf *)
+  Definition antichain (L : list coord) : Prop := forall x y, In x L -> In y L -> under x y -> x = y.
+  Definition covers (L : list coord) : Prop :=
+    forall h r o, locc H HO s (CLeaf h) r o -> In h hs -> exists e, In e L /\ under e (r, o).
+  Definition Ptw (l : list N) : Prop :=
+    exists L, l = map (cpos R) L /\ SSlt l /\ (forall x, In x L -> fdc x) /\ antichain L /\ covers L.
+
+  Lemma tw_fdc_valid x : fdc x -> cvalid R x.
+  Proof. intros (c & L & _). destruct x. exact (tw_cvalid _ _ _ L). Qed.
+
+  Lemma tw_step l1 a b l2 : Ptw (l1 ++ a :: b :: l2) -> rightSib a = b ->
+    a < Parent a total /\ ~ In (Parent a total) (l1 ++ l2) /\ Ptw (insertInOrder (l1 ++ l2) (Parent a total)).
+  Proof.
+    intros (L & El & Hs & Hfd & Hac & Hcov) Et.
+    pose proof (rf_R_total H s) as ER. pose proof (rows_of_le_63 _ Hn63) as HR63.
+    symmetry in El. apply map_eq_app in El as (L1 & L' & -> & E1 & E').
+    apply map_eq_cons in E' as (xa & L'' & -> & Ea & E''). apply map_eq_cons in E'' as (xb & L2 & -> & Eb & E2).
+    assert (Ia : In xa (L1 ++ xa :: xb :: L2)) by (apply in_or_app; right; left; reflexivity).
+    assert (Ib : In xb (L1 ++ xa :: xb :: L2)) by (apply in_or_app; right; right; left; reflexivity).
+    pose proof (Hfd xa Ia) as Fa. pose proof (Hfd xb Ib) as Fb.
+    pose proof (tw_fdc_valid _ Fa) as Va. pose proof (tw_fdc_valid _ Fb) as Vb.
+    assert (Hab : a < b).
+    { assert (Hs2 : SSlt ((l1 ++ [a]) ++ b :: l2)) by (rewrite <- app_assoc; exact Hs).
+      apply (SS_app_lt _ _ Hs2 a b); [apply in_or_app; right; left; reflexivity|left; reflexivity]. }
+    assert (H1a : forall x, In x l1 -> x < a).
+    { intros x Hx. apply (SS_app_lt l1 (a :: b :: l2) Hs x a Hx). left. reflexivity. }
+    assert (H2b : forall x, In x l2 -> b < x).
+    { intros x Hx. assert (Hs2 : SSlt ((l1 ++ [a; b]) ++ l2)) by (rewrite <- app_assoc; exact Hs).
+      apply (SS_app_lt _ _ Hs2 b x); [apply in_or_app; right; right; left; reflexivity|exact Hx]. }
+    rewrite <- Ea, <- Eb in Et, Hab.
+    destruct (twin_coords R xa xb HR63 Va Vb Hab Et) as (Er & Eo & Ev & HaR).
+    destruct Fa as (ca & La & Pa). destruct Fb as (cb & Lb & Pb).
+    apply N.even_spec in Ev as [q Eq]. rewrite Er, Eo, Eq in Lb. rewrite Eq in La.
+    destruct (tw_parent ca cb (fst xa) q La Lb) as (h & Lp).
+    set (xp := (S (fst xa), q)).
+    assert (Fp : fdc xp) by (exists (CNode h ca cb); split; [exact Lp|apply tw_prune_node; assumption]).
+    pose proof (tw_fdc_valid _ Fp) as Vp.
+    assert (EP : Parent a total = cpos R xp).
+    { rewrite <- Ea. rewrite (parent_cpos R n xa HR63 ER Va HaR). unfold xp. rewrite Eq.
+      rewrite N.mul_comm, N.div_mul by lia. reflexivity. }
+    assert (Hap : a < cpos R xp).
+    { rewrite <- Ea. apply cpos_lt_clt; [exact Va|exact Vp|]. left. unfold xp. cbn [fst]. lia. }
+    assert (Hupa : under xp xa).
+    { split; [unfold xp; cbn [fst]; lia|]. unfold xp. cbn [fst snd]. replace (S (fst xa) - fst xa)%nat with 1%nat by lia.
+      rewrite Eq. change (2 ^ N.of_nat 1) with 2. rewrite N.mul_comm, N.div_mul by lia. reflexivity. }
+    assert (Hupb : under xp xb).
+    { split; [unfold xp; cbn [fst]; lia|]. unfold xp. cbn [fst snd]. rewrite Er. replace (S (fst xa) - fst xa)%nat with 1%nat by lia.
+      rewrite Eo, Eq. change (2 ^ N.of_nat 1) with 2. clear. rewrite N.add_comm, N.mul_comm, N.div_add by lia. reflexivity. }
+    (* the elements outside the pair differ from both *)
+    assert (Hout : forall y, In y (L1 ++ L2) -> y <> xa /\ y <> xb /\ In y (L1 ++ xa :: xb :: L2)).
+    { intros y Hy. apply in_app_or in Hy as [Hy|Hy].
+      - assert (Hlt : cpos R y < a) by (apply H1a; rewrite <- E1; apply in_map, Hy).
+        split; [intros ->; lia|]. split; [intros ->; lia|]. apply in_or_app. left. exact Hy.
+      - assert (Hlt : b < cpos R y) by (apply H2b; rewrite <- E2; apply in_map, Hy).
+        split; [intros ->; lia|]. split; [intros ->; lia|]. apply in_or_app. right. right. right. exact Hy. }
+    assert (Hsp : forall y, In y (L1 ++ xa :: xb :: L2) -> y = xa \/ y = xb \/ In y (L1 ++ L2)).
+    { intros y Hy. apply in_app_or in Hy as [Hy|[<-|[<-|Hy]]]; [right; right; apply in_or_app; left; exact Hy|left; reflexivity|
+        right; left; reflexivity|right; right; apply in_or_app; right; exact Hy]. }
+    assert (Hnin : ~ In (cpos R xp) (l1 ++ l2)).
+    { rewrite <- E1, <- E2, <- map_app. intros Hi. apply in_map_iff in Hi as (y & Ey & Hy).
+      destruct (Hout y Hy) as (_ & _ & HyL).
+      apply (cpos_inj2 R y xp (tw_fdc_valid _ (Hfd y HyL)) Vp) in Ey. subst y.
+      pose proof (Hac xp xa HyL Ia Hupa) as E. apply (f_equal fst) in E. unfold xp in E. cbn [fst] in E. lia. }
+    rewrite EP. split; [exact Hap|]. split; [exact Hnin|].
+    exists (insC R (L1 ++ L2) xp). split; [rewrite insC_map, map_app, E1, E2; reflexivity|].
+    split; [apply insertInOrder_SS; [|exact Hnin]; apply (SS_app_drop N.lt l1 [a; b] l2); exact Hs|].
+    split; [|split].
+    - intros x Hx. apply insC_In in Hx as [->|Hx]; [exact Fp|]. apply Hfd, (Hout x Hx).
+    - intros x y Hx Hy Hu. apply insC_In in Hx as [->|Hx]; apply insC_In in Hy as [->|Hy]; [reflexivity| | |].
+      + destruct (Hout y Hy) as (Na & Nb & HyL).
+        destruct (Nat.eq_dec (fst y) (fst xp)) as [Ey|Ey]; [apply under_same_row; [exact Hu|symmetry; exact Ey]|].
+        exfalso. assert (Hlt : (fst y < fst xp)%nat) by (destruct Hu; lia).
+        assert (C0 : chd 0 xp = xa) by (unfold chd, xp; cbn [fst snd]; rewrite N.add_0_r, <- Eq; destruct xa; reflexivity).
+        assert (C1 : chd 1 xp = xb) by (unfold chd, xp; cbn [fst snd]; rewrite <- Eq, <- Eo, <- Er; destruct xb; reflexivity).
+        destruct (under_child_split xp y Hu Hlt) as [Hc|Hc]; [rewrite C0 in Hc|rewrite C1 in Hc].
+        * apply Na. symmetry. exact (Hac xa y Ia HyL Hc).
+        * apply Nb. symmetry. exact (Hac xb y Ib HyL Hc).
+      + exfalso. destruct (Hout x Hx) as (Na & _ & HxL). apply Na. exact (Hac x xa HxL Ia (under_trans _ _ _ Hu Hupa)).
+      + exact (Hac x y (proj2 (proj2 (Hout x Hx))) (proj2 (proj2 (Hout y Hy))) Hu).
+    - intros h0 r o Ll Hh. destruct (Hcov h0 r o Ll Hh) as (e & He & Hu).
+      destruct (Hsp e He) as [->|[->|Hi]].
+      + exists xp. split; [apply insC_In; left; reflexivity|exact (under_trans _ _ _ Hupa Hu)].
+      + exists xp. split; [apply insC_In; left; reflexivity|exact (under_trans _ _ _ Hupb Hu)].
+      + exists e. split; [apply insC_In; right; exact Hi|exact Hu].
+  Qed.
+
+  (** ** 5.4 A list without twins contains every subtree that it covers *)
+
+  Definition twinfreeC (L : list coord) : Prop :=
+    forall y, (1 <= fst y)%nat -> In (chd 0 y) L -> In (chd 1 y) L -> False.
+
+  Lemma coord_eq_dec (x y : coord) : {x = y} + {x <> y}.
+  Proof. decide equality; [apply N.eq_dec|apply Nat.eq_dec]. Qed.
+
+  Lemma tw_Lstar L : twinfreeC L -> forall (c : ctree H) x, (cheight H c <= fst x)%nat ->
+    (forall tau h, occp H c tau (CLeaf h) -> exists e, In e L /\ under x e /\ under e (walk x tau)) -> In x L.
+  Proof.
+    intros TF. induction c as [h|h l IHl r IHr]; intros x Hx Hcov.
+    - destruct (Hcov [] h (occp_nil H _)) as (e & He & U1 & U2). cbn [walk fold_left] in U2.
+      rewrite (under_antisym x e U1 U2). exact He.
+    - cbn [cheight] in Hx. destruct (in_dec coord_eq_dec x L) as [Hin|Hnin]; [exact Hin|exfalso].
+      assert (Hchild : forall b c', (b = false /\ c' = l \/ b = true /\ c' = r) -> (cheight H c' <= fst (chd (bN b) x))%nat /\
+                forall tau h0, occp H c' tau (CLeaf h0) ->
+                  exists e, In e L /\ under (chd (bN b) x) e /\ under e (walk (chd (bN b) x) tau)).
+      { intros b c' Hb.
+        assert (Hh : (cheight H c' <= fst (chd (bN b) x))%nat) by (unfold chd; cbn [fst]; destruct Hb as [[_ ->]|[_ ->]]; lia).
+        split; [exact Hh|]. intros tau h0 Hp.
+        assert (Hp' : occp H (CNode h l r) (b :: tau) (CLeaf h0)).
+        { destruct Hb as [[-> ->]|[-> ->]]; [apply occp_l|apply occp_r]; exact Hp. }
+        destruct (Hcov (b :: tau) h0 Hp') as (e & He & U1 & U2).
+        change (walk x (b :: tau)) with (walk (chd (bN b) x) tau) in U2.
+        exists e. split; [exact He|]. split; [|exact U2].
+        assert (Hne : (fst e < fst x)%nat).
+        { destruct (Nat.eq_dec (fst e) (fst x)) as [E|E]; [|destruct U1; lia].
+          exfalso. apply Hnin. rewrite (under_same_row x e U1 (eq_sym E)). exact He. }
+        pose proof (occp_height H _ _ _ Hp) as Hl. cbn [cheight] in Hl.
+        assert (Uw : under (chd (bN b) x) (walk (chd (bN b) x) tau)) by (apply under_walk; lia).
+        destruct (under_child_split x e U1 Hne) as [Hc|Hc]; destruct b; cbn [bN] in *; try exact Hc; exfalso.
+        - exact (under_chd_disj x _ ltac:(lia) (under_trans _ _ _ Hc U2) Uw).
+        - exact (under_chd_disj x _ ltac:(lia) Uw (under_trans _ _ _ Hc U2)). }
+      destruct (Hchild false l (or_introl (conj eq_refl eq_refl))) as [H0 C0].
+      destruct (Hchild true r (or_intror (conj eq_refl eq_refl))) as [H1 C1].
+      cbn [bN] in *. apply (TF x ltac:(lia)); [exact (IHl _ H0 C0)|exact (IHr _ H1 C1)].
+  Qed.
+
+  Lemma occp_app_inv (c : ctree H) p : forall q c0, occp H c (p ++ q) c0 -> exists c1, occp H c p c1 /\ occp H c1 q c0.
+  Proof.
+    revert c. induction p as [|b p IH]; intros c q c0 Hp.
+    - exists c. split; [constructor|exact Hp].
+    - cbn [app] in Hp. inversion Hp as [|h l r pi c0' Hl|h l r pi c0' Hr]; subst.
+      + destruct (IH l q c0 Hl) as (c1 & A & B). exists c1. split; [apply occp_l; exact A|exact B].
+      + destruct (IH r q c0 Hr) as (c1 & A & B). exists c1. split; [apply occp_r; exact A|exact B].
+  Qed.
+
+  Lemma prune_none_down (c : ctree H) pi c0 : occp H c pi c0 -> prune c = None -> prune c0 = None.
+  Proof.
+    intros Hp Hn. apply (prune_none_iff H HO HOK). intros h Hh.
+    apply (proj1 (prune_none_iff H HO HOK hs c) Hn). exact (occp_leaves H _ _ _ Hp h Hh).
+  Qed.
+
+  (** subtrees of a subtree of the forest *)
+  Lemma tw_locc_down c x tau c0 : locc H HO s c (fst x) (snd x) -> occp H c tau c0 ->
+    locc H HO s c0 (fst (walk x tau)) (snd (walk x tau)) /\ (length tau <= fst x)%nat.
+  Proof.
+    intros L Hp. pose proof (locc_height H HO s _ _ _ L) as Hh. pose proof (occp_height H _ _ _ Hp) as Hl.
+    split; [|lia].
+    apply locc_path in L as (e & ce & pi & He & Hs & Hpi & Hw & Hle).
+    apply locc_path. exists e, ce, (pi ++ tau). split; [exact He|]. split; [exact Hs|].
+    split; [exact (occp_trans H _ _ _ _ _ Hpi Hp)|]. split.
+    - rewrite walk_app, Hw, <- surjective_pairing. apply surjective_pairing.
+    - exact (sl_height H HO s e ce _ _ He Hs (occp_trans H _ _ _ _ _ Hpi Hp)).
+  Qed.
+
+  Lemma occp_fun (c : ctree H) p : forall c1 c2, occp H c p c1 -> occp H c p c2 -> c1 = c2.
+  Proof.
+    revert c. induction p as [|b p IH]; intros c c1 c2 H1 H2.
+    - inversion H1; inversion H2; subst. reflexivity.
+    - inversion H1; subst; inversion H2; subst; eapply IH; eassumption.
+  Qed.
+
+  (** the elements of [glist] are the maximal deleted subtrees *)
+  Lemma glist_intro (ce : ctree H) pi c : occp H ce pi c -> prune c = None ->
+    (forall pi1 b pi2 c1, pi = pi1 ++ b :: pi2 -> occp H ce pi1 c1 -> prune c1 <> None) ->
+    forall Y, In (walk Y pi) (glist H HO hs ce Y).
+  Proof.
+    induction 1 as [c|h l r pi c Hp IH|h l r pi c Hp IH]; intros Hn Hpre Y.
+    - rewrite (glist_none H HO hs c Hn). left. reflexivity.
+    - destruct (prune (CNode h l r)) as [cc|] eqn:Ec; [|exfalso; exact (Hpre [] false pi _ eq_refl (occp_nil H _) Ec)].
+      rewrite (glist_node H HO hs h l r cc Ec). apply in_or_app. left.
+      change (walk Y (false :: pi)) with (walk (chd 0 Y) pi). apply IH; [exact Hn|].
+      intros pi1 b pi2 c1 E Hp1. apply (Hpre (false :: pi1) b pi2 c1); [rewrite E; reflexivity|apply occp_l; exact Hp1].
+    - destruct (prune (CNode h l r)) as [cc|] eqn:Ec; [|exfalso; exact (Hpre [] true pi _ eq_refl (occp_nil H _) Ec)].
+      rewrite (glist_node H HO hs h l r cc Ec). apply in_or_app. right.
+      change (walk Y (true :: pi)) with (walk (chd 1 Y) pi). apply IH; [exact Hn|].
+      intros pi1 b pi2 c1 E Hp1. apply (Hpre (true :: pi1) b pi2 c1); [rewrite E; reflexivity|apply occp_r; exact Hp1].
+  Qed.
+
+  Lemma glist_elim (ce : ctree H) : forall Y d, In d (glist H HO hs ce Y) ->
+    exists pi c, occp H ce pi c /\ d = walk Y pi /\ prune c = None.
+  Proof.
+    induction ce as [h|h l IHl r IHr]; intros Y d Hd.
+    - cbn [glist] in Hd. destruct (memH HO h hs) eqn:Em; [|destruct Hd]. destruct Hd as [<-|[]].
+      exists [], (CLeaf h). split; [constructor|]. split; [reflexivity|]. cbn [RefTheory.prune]. rewrite Em. reflexivity.
+    - destruct (prune (CNode h l r)) as [cc|] eqn:Ec.
+      + rewrite (glist_node H HO hs h l r cc Ec) in Hd. apply in_app_or in Hd as [Hd|Hd].
+        * destruct (IHl _ _ Hd) as (pi & c & Hp & -> & Hn). exists (false :: pi), c. split; [apply occp_l; exact Hp|]. split; [reflexivity|exact Hn].
+        * destruct (IHr _ _ Hd) as (pi & c & Hp & -> & Hn). exists (true :: pi), c. split; [apply occp_r; exact Hp|]. split; [reflexivity|exact Hn].
+      + rewrite (glist_none H HO hs _ Ec) in Hd. destruct Hd as [<-|[]]. exists [], (CNode h l r). split; [constructor|]. split; [reflexivity|exact Ec].
+  Qed.
+
+  Lemma glist_antichain (ce : ctree H) : forall Y, (cheight H ce <= fst Y)%nat -> forall d1 d2,
+    In d1 (glist H HO hs ce Y) -> In d2 (glist H HO hs ce Y) -> under d1 d2 -> d1 = d2.
+  Proof.
+    induction ce as [h|h l IHl r IHr]; intros Y HY d1 d2 H1 H2 Hu.
+    - cbn [glist] in H1, H2. destruct (memH HO h hs); [|destruct H1]. destruct H1 as [<-|[]], H2 as [<-|[]]. reflexivity.
+    - destruct (prune (CNode h l r)) as [cc|] eqn:Ec.
+      2:{ rewrite (glist_none H HO hs _ Ec) in H1, H2. destruct H1 as [<-|[]], H2 as [<-|[]]. reflexivity. }
+      rewrite (glist_node H HO hs h l r cc Ec) in H1, H2. cbn [cheight] in HY.
+      assert (Hl : (cheight H l <= fst (chd 0 Y))%nat) by (unfold chd; cbn [fst]; lia).
+      assert (Hr : (cheight H r <= fst (chd 1 Y))%nat) by (unfold chd; cbn [fst]; lia).
+      apply in_app_or in H1 as [H1|H1]; apply in_app_or in H2 as [H2|H2].
+      + exact (IHl _ Hl d1 d2 H1 H2 Hu).
+      + exfalso. pose proof (glist_under H HO hs l _ d1 Hl H1) as U1. pose proof (glist_under H HO hs r _ d2 Hr H2) as U2.
+        exact (under_chd_disj Y d2 ltac:(lia) (under_trans _ _ _ U1 Hu) U2).
+      + exfalso. pose proof (glist_under H HO hs r _ d1 Hr H1) as U1. pose proof (glist_under H HO hs l _ d2 Hl H2) as U2.
+        exact (under_chd_disj Y d2 ltac:(lia) U2 (under_trans _ _ _ U1 Hu)).
+      + exact (IHr _ Hr d1 d2 H1 H2 Hu).
+  Qed.
+
+  Section Final.
+    Variable L : list coord.
+    Hypothesis Lfd : forall x, In x L -> fdc x.
+    Hypothesis Lac : antichain L.
+    Hypothesis Lcov : covers L.
+    Hypothesis Ltf : twinfreeC L.
+
+    (** the parent of an element is not fully deleted *)
+    Lemma tw_max_parent (e : entry) ce pi h l r b : In e (forest HO s) -> snd e = Some ce ->
+      occp H ce pi (CNode h l r) -> In (walk (ecoord e) (pi ++ [b])) L -> prune (CNode h l r) <> None.
+    Proof.
+      intros He Hs Hp Hin Hn.
+      pose proof (sl_height H HO s e ce pi _ He Hs Hp) as Hl.
+      assert (LP : locc H HO s (CNode h l r) (fst (walk (ecoord e) pi)) (snd (walk (ecoord e) pi))).
+      { apply locc_path. exists e, ce, pi. repeat split; try assumption. apply surjective_pairing. }
+      set (P := walk (ecoord e) pi) in *.
+      pose proof (locc_height H HO s _ _ _ LP) as HP. cbn [cheight] in HP.
+      rewrite walk_app in Hin. fold P in Hin. cbn [walk fold_left] in Hin.
+      (* the sibling *)
+      set (c' := if b then l else r). set (b' := negb b).
+      assert (Hp' : occp H (CNode h l r) [b'] c') by (unfold b', c'; destruct b; cbn [negb]; constructor; constructor).
+      assert (Hn' : prune c' = None) by (exact (prune_none_down _ _ _ Hp' Hn)).
+      destruct (tw_locc_down _ P [b'] c' LP Hp') as [Ls _]. cbn [walk fold_left] in Ls.
+      assert (Hsib : In (chd (bN b') P) L).
+      { apply (tw_Lstar L Ltf c'); [exact (locc_height H HO s _ _ _ Ls)|].
+        intros tau h0 Hq. destruct (tw_locc_down _ (chd (bN b') P) tau _ Ls Hq) as [Ll Hlt].
+        assert (Hh0 : In h0 hs).
+        { apply (proj1 (prune_none_iff H HO HOK hs c') Hn'). apply (occp_leaves H _ _ _ Hq). left. reflexivity. }
+        destruct (Lcov h0 _ _ Ll Hh0) as (e0 & He0 & U0). rewrite <- surjective_pairing in U0.
+        exists e0. split; [exact He0|]. split; [|exact U0].
+        assert (Uw : under (chd (bN b') P) (walk (chd (bN b') P) tau)) by (apply under_walk; exact Hlt).
+        destruct (le_lt_dec (fst e0) (fst (chd (bN b') P))) as [Hle|Hgt].
+        - exact (under_comparable _ _ _ U0 Uw Hle).
+        - exfalso. assert (UP : under P (chd (bN b') P)) by (apply under_chd_parent; [lia|destruct b'; cbn; lia]).
+          assert (U1 : under e0 P).
+          { apply (under_comparable P e0 _ (under_trans _ _ _ UP Uw) U0). unfold chd in Hgt. cbn [fst] in Hgt. lia. }
+          assert (UPd : under P (chd (bN b) P)) by (apply under_chd_parent; [lia|destruct b; cbn; lia]).
+          pose proof (Lac e0 _ He0 Hin (under_trans _ _ _ U1 UPd)) as E.
+          rewrite E in Hgt. unfold chd in Hgt. cbn [fst] in Hgt. lia. }
+      apply (Ltf P ltac:(lia)); unfold b' in Hsib; destruct b; cbn [negb bN] in *; assumption.
+    Qed.
+
+    (** every element is the top of a fully deleted tree or one of the maximal deleted subtrees
+        of a tree that survives *)
+    Lemma tw_char_fwd d : In d L -> exists (e : entry) ce, In e (forest HO s) /\ snd e = Some ce /\ under (ecoord e) d /\ ((d = ecoord e /\ prune ce = None) \/
+       (prune ce <> None /\ In d (glist H HO hs ce (ecoord e)))).
+    Proof.
+      intros Hd. destruct (Lfd d Hd) as (c & Lc & Hn).
+      apply locc_path in Lc as (e & ce & pi & He & Hs & Hp & Hw & Hle). rewrite <- surjective_pairing in Hw.
+      exists e, ce. split; [exact He|]. split; [exact Hs|].
+      split; [rewrite <- Hw; apply under_walk; exact Hle|].
+      destruct pi as [|b0 pi0].
+      - left. inversion Hp; subst. split; [reflexivity|exact Hn].
+      - right.
+        assert (Hpre : forall pi1 b pi2 c1, b0 :: pi0 = pi1 ++ b :: pi2 -> occp H ce pi1 c1 -> prune c1 <> None).
+        { intros pi1 b pi2 c1 E Hp1 Hn1.
+          destruct (exists_last (l := b :: pi2) ltac:(discriminate)) as (sigma & b' & Es).
+          rewrite Es, app_assoc in E. rewrite E in Hp, Hw.
+          destruct (occp_app_inv ce (pi1 ++ sigma) [b'] c Hp) as (cp & Hcp & Hlast).
+          destruct (occp_app_inv ce pi1 sigma cp Hcp) as (c1' & Hc1 & Hsig).
+          rewrite <- (occp_fun ce pi1 _ _ Hp1 Hc1) in Hsig.
+          pose proof (prune_none_down c1 sigma cp Hsig Hn1) as Hnp.
+          destruct cp as [hh|hh l r]; [inversion Hlast|].
+          rewrite <- Hw in Hd. exact (tw_max_parent e ce (pi1 ++ sigma) hh l r b' He Hs Hcp Hd Hnp). }
+        split; [exact (Hpre [] b0 pi0 ce eq_refl (occp_nil H _))|].
+        rewrite <- Hw. exact (glist_intro ce _ c Hp Hn Hpre (ecoord e)).
+    Qed.
+
+    Lemma tw_char_bwd (e : entry) ce d : In e (forest HO s) -> snd e = Some ce -> prune ce <> None ->
+      In d (glist H HO hs ce (ecoord e)) -> In d L.
+    Proof.
+      intros He Hs Hne Hd.
+      pose proof (gf_height H HO s e ce He Hs) as Hh.
+      destruct (glist_elim ce _ d Hd) as (pi & c & Hp & Ed & Hn).
+      pose proof (sl_height H HO s e ce pi c He Hs Hp) as Hle.
+      assert (Lc : locc H HO s c (fst d) (snd d)).
+      { apply locc_path. exists e, ce, pi. repeat split; try assumption. rewrite <- Ed. apply surjective_pairing. }
+      destruct (occp_some_leaf c) as (sigma & h0 & Hq).
+      destruct (tw_locc_down c d sigma _ Lc Hq) as [Ll Hlt].
+      assert (Hh0 : In h0 hs).
+      { apply (proj1 (prune_none_iff H HO HOK hs c) Hn). apply (occp_leaves H _ _ _ Hq). left. reflexivity. }
+      destruct (Lcov h0 _ _ Ll Hh0) as (e0 & He0 & U0). rewrite <- surjective_pairing in U0.
+      assert (Uw : under d (walk d sigma)) by (apply under_walk; exact Hlt).
+      assert (Ud : under (ecoord e) d) by (rewrite Ed; apply under_walk; exact Hle).
+      destruct (tw_char_fwd e0 He0) as (e' & ce' & He' & Hs' & Ue0 & Hcase).
+      assert (Hcmp : under e0 d \/ under d e0).
+      { destruct (le_lt_dec (fst e0) (fst d)) as [A|A]; [right; exact (under_comparable _ _ _ U0 Uw A)|].
+        left. apply (under_comparable _ _ _ Uw U0). lia. }
+      assert (Ee : e' = e).
+      { destruct (Nat.eq_dec (erow e) (erow e')) as [Er|Er]; [symmetry; exact (gf_same_row H HO s e e' He He' Er)|exfalso].
+        destruct Hcmp as [A|A].
+        - exact (gf_trees_disj H HO s e' e e0 d He' He (fun E => Er (eq_sym E)) Ue0 Ud A).
+        - exact (gf_trees_disj H HO s e e' d e0 He He' Er Ud Ue0 A). }
+      subst e'. rewrite Hs in Hs'. injection Hs' as <-.
+      destruct Hcase as [[_ Hn']|[_ Hd0]]; [contradiction|].
+      assert (E : e0 = d).
+      { destruct Hcmp as [A|A]; [exact (glist_antichain ce (ecoord e) Hh e0 d Hd0 Hd A)|symmetry; exact (glist_antichain ce (ecoord e) Hh d e0 Hd Hd0 A)]. }
+      rewrite <- E. exact He0.
+    Qed.
+  End Final.
+
+  (** ** 5.5 [deTwin] on the sorted positions of the deleted leaves *)
+  Variable L0 : list coord.
+  Hypothesis L0_sorted : SSlt (map (cpos R) L0).
+  Hypothesis L0_leaf : forall x, In x L0 -> exists h, locc H HO s (CLeaf h) (fst x) (snd x) /\ In h hs.
+  Hypothesis L0_cov : covers L0.
+
+  Lemma tw_init : Ptw (map (cpos R) L0).
+  Proof.
+    exists L0. split; [reflexivity|]. split; [exact L0_sorted|]. split; [|split; [|exact L0_cov]].
+    - intros x Hx. destruct (L0_leaf x Hx) as (h & Lh & Hh). exists (CLeaf h). split; [exact Lh|].
+      cbn [RefTheory.prune]. apply (memH_In H HO HOK) in Hh. rewrite Hh. reflexivity.
+    - intros x y Hx Hy Hu. destruct (L0_leaf x Hx) as (h & Lh & _). destruct (L0_leaf y Hy) as (h' & Lh' & _).
+      destruct x as [r o], y as [r' o']. cbn [fst snd] in *.
+      pose proof (locc_under _ _ _ _ _ _ Lh Lh' Hu) as Ho. inversion Ho; subst. reflexivity.
+  Qed.
+
+  Theorem tw_deTwin : exists Lf, deTwin (map (cpos R) L0) total = map (cpos R) Lf /\
+    SSlt (map (cpos R) Lf) /\ (forall x, In x Lf -> fdc x) /\ antichain Lf /\ covers Lf /\ twinfreeC Lf.
+  Proof.
+    pose proof (rf_R_total H s) as ER. pose proof (rows_of_le_63 _ Hn63) as HR63.
+    unfold deTwin.
+    destruct (deTwin_loop_spec Ptw total (fun l '(ex_intro _ _ (conj _ (conj Hs _))) => Hs) tw_step
+                (2 * length (map (cpos R) L0) + 2) 0 (map (cpos R) L0) tw_init) as [HP Hck].
+    - intros j a b Hj. lia.
+    - lia.
+    - destruct HP as (Lf & El & Hs & Hfd & Hac & Hcov). exists Lf. rewrite El in *.
+      split; [reflexivity|]. repeat (split; [assumption|]).
+      intros y Hy H0 H1.
+      pose proof (tw_fdc_valid _ (Hfd _ H0)) as V0. pose proof (tw_fdc_valid _ (Hfd _ H1)) as V1.
+      assert (Hrs : rightSib (cpos R (chd 0 y)) = cpos R (chd 1 y)).
+      { rewrite !cpos_gpos. rewrite rightSib_gpos by (destruct V0; lia). unfold chd. cbn [fst snd].
+        rewrite lor_1. replace (N.even (2 * snd y + 0)) with true; [f_equal; lia|].
+        symmetry. rewrite N.add_0_r, N.even_mul. reflexivity. }
+      assert (Hne : cpos R (chd 0 y) <> cpos R (chd 1 y)).
+      { intros E. apply (cpos_inj2 R _ _ V0 V1) in E. unfold chd in E. apply (f_equal snd) in E. cbn [snd] in E. lia. }
+      assert (E1 : cpos R (chd 1 y) = cpos R (chd 0 y) + 1).
+      { destruct (rightSib_cases (cpos R (chd 0 y))) as [E|E]; rewrite E in Hrs; [congruence|symmetry; exact Hrs]. }
+      destruct (SS_adjacent _ (cpos R (chd 0 y)) Hs (in_map _ _ _ H0)) as (j & A & B).
+      { rewrite <- E1. apply in_map, H1. }
+      apply (Hck (S j) j _ _ (Nat.lt_succ_diag_r j) A B). rewrite Hrs. exact E1.
+  Qed.
+End TwinSem.
+
+(** * 6. Every valid block *)
+
+Lemma in_tree_of_under {H} (HO : ops H) (s : slots H) (e : StumpAdd.entry H) x :
+  In e (forest HO s) -> under (ecoord H e) x ->
+  in_tree (N.of_nat (length s)) (snd x * 2 ^ N.of_nat (fst x)) (N.of_nat (StumpAdd.erow H e)).
+Proof.
+  intros He Hu. pose proof (gf_ecoord_lo H HO s e He) as El.
+  apply under_lo in Hu. change (fst (ecoord H e)) with (StumpAdd.erow H e) in Hu.
+  rewrite N.mul_add_distr_r, N.mul_1_l, El in Hu.
+  destruct e as [[k lo] t]. unfold elo, StumpAdd.erow in *. cbn [fst snd] in *.
+  pose proof (forest_entry H HO s _ _ _ He) as (Hb & E2 & _).
+  fold (p2 (fst x)). set (v := snd x * p2 (fst x)) in *. unfold p2 in *.
+  replace (N.of_nat (S k)) with (N.of_nat k + 1) in E2 by lia.
+  set (K := N.of_nat k) in *. set (q := N.of_nat (length s) / 2 ^ (K + 1)) in *.
+  rewrite pow2_S in E2.
+  assert (Hk : 0 < 2 ^ K) by apply UtilsGeom.pow2_pos.
+  assert (E1 : v / 2 ^ (K + 1) = q).
+  { symmetry. apply (N.div_unique v (2 ^ (K + 1)) q (v - q * (2 * 2 ^ K))); rewrite pow2_S; lia. }
+  assert (E0 : v / 2 ^ K = 2 * q).
+  { symmetry. apply (N.div_unique v (2 ^ K) (2 * q) (v - q * (2 * 2 ^ K))); lia. }
+  split; [exact Hb|]. split; [|exact E1].
+  pose proof (do_bit_div v K) as Hd. rewrite E0, E1 in Hd.
+  destruct (N.testbit v K); [cbn [N.b2n] in Hd; lia|reflexivity].
+Qed.
+
+Lemma SS_clt_of_pos R (L : list coord) : (forall x, In x L -> cvalid R x) ->
+  SSlt (map (cpos R) L) -> StronglySorted clt L.
+Proof.
+  induction L as [|x t IH]; intros Hv Hs; [constructor|]. cbn [map] in Hs.
+  destruct (po_SS_inv _ _ _ Hs) as [Hs' Hx]. constructor.
+  - apply IH; [intros y Hy; apply Hv; right; exact Hy|exact Hs'].
+  - apply Forall_forall. intros y Hy. specialize (Hx _ (in_map (cpos R) _ _ Hy)).
+    pose proof (Hv x (or_introl eq_refl)) as Vx. pose proof (Hv y (or_intror Hy)) as Vy.
+    destruct (clt_total x y) as [C|[C|C]]; [exact C|subst y; lia|].
+    pose proof (cpos_lt_clt R y x Vy Vx C). lia.
+Qed.
+
+Section AllFinal.
+  Variable H : Type.
+  Variable HO : ops H.
+  Hypothesis HOK : ops_ok HO.
+  Variable s : slots H.
+  Hypothesis Hn63 : N.of_nat (length s) <= 2 ^ 63.
+  Hypothesis Hnd : NoDup (live s).
+  Variable hs : list H.
+  Variable xds : list (node H).
+  Local Notation lay := (layout HO s).
+  Local Notation R := (rows_of (num_leaves s)).
+  Local Notation n := (N.of_nat (length s)).
+  Local Notation total := (TreeRows (N.of_nat (length s))).
+  Hypothesis Hxds_lay : forall x, In x xds -> In x lay.
+  Hypothesis Hxds_leaf : forall x, In x xds -> nleaf x = true.
+  Hypothesis Hxds_nd : NoDup xds.
+  Hypothesis Hxds_hash : map (@nhash H) xds = hs.
+  Local Notation entry := (StumpAdd.entry H).
+  Local Notation erow := (@StumpAdd.erow H).
+  Local Notation ecoord := (@StumpAddData.ecoord H).
+  Local Notation prune := (RefTheory.prune HO hs).
+  Local Notation s1 := (kill HO hs s).
+
+  Definition coord_eqb (a b : coord) : bool := Nat.eqb (fst a) (fst b) && N.eqb (snd a) (snd b).
+  Lemma coord_eqb_spec a b : coord_eqb a b = true <-> a = b.
+  Proof.
+    unfold coord_eqb. rewrite andb_true_iff, Nat.eqb_eq, N.eqb_eq. destruct a, b. cbn [fst snd].
+    split; [intros [-> ->]; reflexivity|intros E; injection E; auto].
+  Qed.
+
+  (** the tops of the trees *)
+  Definition istop (d : coord) : bool :=
+    existsb (fun e : entry => match snd e with Some _ => coord_eqb (ecoord e) d | None => false end) (forest HO s).
+
+  Lemma istop_spec d : istop d = true <-> exists (e : entry) ce, In e (forest HO s) /\ snd e = Some ce /\ ecoord e = d.
+  Proof.
+    unfold istop. rewrite existsb_exists. split.
+    - intros (e & He & Hb). destruct (snd e) as [ce|] eqn:Es; [|discriminate].
+      exists e, ce. split; [exact He|]. split; [exact Es|apply coord_eqb_spec, Hb].
+    - intros (e & ce & He & Es & E). exists e. split; [exact He|]. rewrite Es. apply coord_eqb_spec, E.
+  Qed.
+
+  Lemma af_glist_not_top (e : entry) ce d : In e (forest HO s) -> snd e = Some ce -> prune ce <> None ->
+    In d (glist H HO hs ce (ecoord e)) -> istop d = false.
+  Proof.
+    intros He Hs Hne Hd. destruct (istop d) eqn:Et; [exfalso|reflexivity].
+    apply istop_spec in Et as (e' & ce' & He' & Hs' & E).
+    pose proof (gf_height H HO s e ce He Hs) as Hh.
+    pose proof (glist_row H HO hs ce (ecoord e) d Hh Hne Hd) as Hr.
+    pose proof (glist_under H HO hs ce (ecoord e) d Hh Hd) as Hu.
+    assert (Er : erow e <> erow e').
+    { change (erow e') with (fst (ecoord e')). rewrite E. change (fst (ecoord e)) with (erow e) in Hr. lia. }
+    apply (gf_trees_disj H HO s e e' d d He He' Er Hu); [rewrite E|]; apply under_refl.
+  Qed.
+
+  (** the targets that are not tops *)
+  Lemma af_dok (e : entry) ce d : In e (forest HO s) -> snd e = Some ce -> prune ce <> None ->
+    In d (glist H HO hs ce (ecoord e)) -> dok R n d.
+  Proof.
+    intros He Hs Hne Hd.
+    pose proof (gf_height H HO s e ce He Hs) as Hh.
+    pose proof (glist_row H HO hs ce (ecoord e) d Hh Hne Hd) as Hr.
+    destruct (glist_elim H HO hs ce _ d Hd) as (pi & c & Hp & Ed & _).
+    pose proof (sl_height H HO s e ce pi c He Hs Hp) as Hl.
+    destruct e as [[k lo] t]. cbn [snd] in Hs. rewrite Hs in *.
+    pose proof (path_occ H ce pi _ Hp (ecoord (k, lo, Some ce)) Hl) as Ho. rewrite <- Ed in Ho.
+    destruct (locc_entry_node H HO s _ _ _ _ _ _ He Ho) as (x & _ & Hx & Xr & Xo & _ & _ & _ & Hnr).
+    specialize (Hnr Hr).
+    destruct (rf_parent H HO s x Hx Hnr) as (p & Hp' & Ep & _).
+    destruct (layout_coords_rows_of H HO s x Hx) as [V1 V2].
+    destruct (layout_coords_rows_of H HO s p Hp') as [P1 _].
+    pose proof (layout_coords_valid H HO s p Hp') as Pv.
+    unfold ncrd, par, cN in Ep. cbn [fst snd] in Ep. injection Ep as Er Eo.
+    assert (Erp : nrow p = S (nrow x)) by lia.
+    rewrite Xr, Xo in *.
+    split; [lia|]. split; [split; assumption|].
+    unfold pf_ok. rewrite Eo, Erp in Pv.
+    replace (N.of_nat (fst d) + 1) with (N.of_nat (S (fst d))) by lia. exact Pv.
+  Qed.
+
+  (** the sorted deleted leaves, as the initial list of [deTwin] *)
+  Local Notation L0 := (mdd H s xds).
+
+  Lemma af_L0_sorted : SSlt (map (cpos R) L0).
+  Proof.
+    rewrite (mfin_pos H HO s xds Hxds_lay Hxds_nd).
+    apply pps_sortN_NoDup_SSlt, (po_targets_NoDup H HO s xds Hxds_lay Hxds_nd).
+  Qed.
+
+  Lemma af_L0_leaf x : In x L0 -> exists h, locc H HO s (CLeaf h) (fst x) (snd x) /\ In h hs.
+  Proof.
+    unfold mdd. intros Hx. apply in_map_iff in Hx as (y & <- & Hy). apply mfin_sxd in Hy.
+    destruct (node_locc H HO s y (Hxds_lay y Hy) (Hxds_leaf y Hy)) as (k & lo & c & He & Ho & _).
+    exists (nhash y). split; [exists k, lo, c; split; assumption|]. rewrite <- Hxds_hash. apply in_map, Hy.
+  Qed.
+
+  Lemma af_L0_cov : covers H HO s hs L0.
+  Proof.
+    intros h r o Ll Hh. destruct (locc_node H HO s _ _ _ Ll) as (y & Hy & Yr & Yo & Yh & Yl).
+    cbn [chash cleafb] in Yh, Yl.
+    assert (Hyx : In y xds) by (apply (dg2_xds H HO s Hnd hs xds Hxds_lay Hxds_leaf Hxds_hash y Hy Yl); rewrite Yh; exact Hh).
+    exists (r, o). split; [|apply under_refl]. unfold mdd. apply in_map_iff. exists y.
+    split; [rewrite Yr, Yo; reflexivity|apply mfin_sxd, Hyx].
+  Qed.
+
+  (** the hypotheses of the general reduction, for every valid block *)
+  Theorem af_targets : exists Dall : list (coord * bool),
+    deTwin (sortN (map (npos R) xds)) (TreeRows (num_leaves s)) = map (cpos R) (map fst Dall) /\
+    (forall d, In (d, true) Dall -> dok R n d) /\
+    (forall c0 r0 o0 c0', locc H HO s c0 r0 o0 -> prune c0 = Some c0' -> gok R n Dall (r0, o0)) /\
+    StronglySorted clt (lifts Dall) /\
+    (forall d, In d (lifts Dall) <-> exists (e : entry) ce, In e (forest HO s) /\ snd e = Some ce /\
+                                     prune ce <> None /\ In d (glist H HO hs ce (ecoord e))).
+  Proof.
+    pose proof (rf_R_total H s) as ER. pose proof (rows_of_le_63 _ Hn63) as HR63.
+    destruct (tw_deTwin H HO HOK s Hn63 Hnd hs L0 af_L0_sorted af_L0_leaf af_L0_cov)
+      as (Lf & Ed & Hs & Lfd & Lac & Lcov & Ltf).
+    rewrite (mfin_pos H HO s xds Hxds_lay Hxds_nd) in Ed.
+    set (Dall := map (fun d => (d, negb (istop d))) Lf).
+    assert (F0 : map fst Dall = Lf) by (unfold Dall; rewrite map_map; cbn [fst]; apply map_id).
+    assert (F1 : forall d b, In (d, b) Dall <-> In d Lf /\ b = negb (istop d)).
+    { intros d b. unfold Dall. rewrite in_map_iff. split.
+      - intros (d' & E & Hd'). injection E as -> <-. split; [exact Hd'|reflexivity].
+      - intros [Hd ->]. exists d. split; [reflexivity|exact Hd]. }
+    assert (F2 : forall d, In d (lifts Dall) <-> In d Lf /\ istop d = false).
+    { intros d. unfold lifts. rewrite in_map_iff. split.
+      - intros ([d' b] & E & Hf). cbn [fst] in E. subst d'. apply filter_In in Hf as [Hin Hb]. cbn [snd] in Hb. subst b.
+        apply F1 in Hin as [Hd Hb]. split; [exact Hd|]. destruct (istop d); [discriminate|reflexivity].
+      - intros [Hd Ht]. exists (d, true). split; [reflexivity|]. apply filter_In. split; [|reflexivity].
+        apply F1. split; [exact Hd|rewrite Ht; reflexivity]. }
+    (* what the elements are *)
+    assert (Fnt : forall d, In d Lf -> istop d = false -> exists (e : entry) ce, In e (forest HO s) /\ snd e = Some ce /\
+                    prune ce <> None /\ In d (glist H HO hs ce (ecoord e))).
+    { intros d Hd Ht. destruct (tw_char_fwd H HO HOK s Hn63 hs Lf Lfd Lac Lcov Ltf d Hd) as (e & ce & He & Hse & _ & [[E _]|[Hne Hg]]).
+      - exfalso. assert (istop d = true) by (apply istop_spec; exists e, ce; auto). congruence.
+      - exists e, ce. auto. }
+    assert (Ftop : forall d, In d Lf -> istop d = true -> exists (e : entry) ce, In e (forest HO s) /\ snd e = Some ce /\
+                    prune ce = None /\ d = ecoord e).
+    { intros d Hd Ht. destruct (tw_char_fwd H HO HOK s Hn63 hs Lf Lfd Lac Lcov Ltf d Hd) as (e & ce & He & Hse & _ & [[E Hn]|[Hne Hg]]).
+      - exists e, ce. auto.
+      - rewrite (af_glist_not_top e ce d He Hse Hne Hg) in Ht. discriminate. }
+    exists Dall. split; [rewrite F0; exact Ed|]. split; [|split; [|split]].
+    - intros d Hd. apply F1 in Hd as [Hd Hb].
+      destruct (Fnt d Hd ltac:(destruct (istop d); [discriminate|reflexivity])) as (e & ce & He & Hse & Hne & Hg).
+      exact (af_dok e ce d He Hse Hne Hg).
+    - intros c0 r0 o0 c0' Lc Hpr. pose proof (tw_cvalid H HO s _ _ _ Lc) as Vx.
+      apply locc_path in Lc as (e & ce & pi & He & Hse & Hp & Hw & Hle).
+      assert (Hne : prune ce <> None).
+      { destruct (prune_occp H HO hs ce pi c0 Hp c0' Hpr) as (cc & Pc & _). rewrite Pc. discriminate. }
+      pose proof (gf_height H HO s e ce He Hse) as Hh.
+      exists (fun y => under (ecoord e) y /\ cvalid R y). split; [|split].
+      + split; [rewrite <- Hw; apply under_walk; exact Hle|exact Vx].
+      + intros d Hd y [Uy Vy]. apply F1 in Hd as [Hd Hb].
+        destruct (Fnt d Hd ltac:(destruct (istop d); [discriminate|reflexivity])) as (e' & ce' & He' & Hse' & Hne' & Hg).
+        destruct (af_dok e' ce' d He' Hse' Hne' Hg) as (Hdr & _ & _).
+        split; [|apply lift1_valid; assumption].
+        pose proof (gf_height H HO s e' ce' He' Hse') as Hh'.
+        destruct (glist_walk H HO hs ce' (ecoord e') d Hh' Hg) as (tau & Edd & Hlt & Hne2). specialize (Hne2 Hne').
+        destruct (Nat.eq_dec (erow e') (erow e)) as [Er|Er].
+        * pose proof (gf_same_row H HO s e' e He' He Er) as Ee. subst e'. rewrite Edd.
+          apply pm_region_closed; [exact Hne2|change (fst (ecoord e)) with (erow e); lia|exact Uy].
+        * rewrite pd_lift1_id; [exact Uy|].
+          destruct (anc (S (fst d), snd d / 2) y) eqn:Ea; [exfalso|reflexivity].
+          apply anc_under in Ea as [_ Hu].
+          assert (HA : under (ecoord e') (S (fst d), snd d / 2)).
+          { rewrite Edd. apply under_parent_walk; [exact Hne2|change (fst (ecoord e')) with (erow e'); lia]. }
+          exact (gf_trees_disj H HO s e' e _ y He' He Er HA Uy Hu).
+      + intros d Hd y [Uy Vy]. apply F1 in Hd as [Hd Hb].
+        destruct (Ftop d Hd ltac:(destruct (istop d); [reflexivity|discriminate])) as (e' & ce' & He' & Hse' & Hn' & Ed').
+        assert (Er : erow e' <> erow e).
+        { intros Er. pose proof (gf_same_row H HO s e' e He' He Er) as Ee. subst e'. congruence. }
+        pose proof (tw_fdc_valid H HO s hs d (Lfd d Hd)) as [Vd1 Vd2]. destruct Vy as [Vy1 Vy2].
+        rewrite !cpos_gpos. rewrite ER in *.
+        apply subtree_diff_trees with (k1 := N.of_nat (erow e')) (k2 := N.of_nat (erow e));
+          [exact Hn63|rewrite <- ER; lia|exact Vd2|rewrite <- ER; lia|exact Vy2| | |lia].
+        * apply (in_tree_of_under HO s e' d He'). rewrite Ed'. apply under_refl.
+        * exact (in_tree_of_under HO s e y He Uy).
+    - assert (Hsc : StronglySorted clt Lf).
+      { apply (SS_clt_of_pos R); [|exact Hs]. intros x Hx. exact (tw_fdc_valid H HO s hs x (Lfd x Hx)). }
+      clear - Hsc. unfold lifts, Dall. induction Hsc as [|x t Ht IH Hx]; [constructor|].
+      cbn [map filter snd]. destruct (negb (istop x)); cbn [map fst]; [|exact IH]. constructor; [exact IH|].
+      apply Forall_forall. intros y Hy. apply in_map_iff in Hy as ([y' b] & E & Hf). cbn [fst] in E. subst y'.
+      apply filter_In in Hf as [Hin _]. apply in_map_iff in Hin as (y' & E & Hy'). injection E as -> _.
+      rewrite Forall_forall in Hx. exact (Hx y Hy').
+    - intros d. rewrite F2. split.
+      + intros [Hd Ht]. exact (Fnt d Hd Ht).
+      + intros (e & ce & He & Hse & Hne & Hg). split; [|exact (af_glist_not_top e ce d He Hse Hne Hg)].
+        exact (tw_char_bwd H HO HOK s Hn63 hs Lf Lfd Lac Lcov Ltf e ce d He Hse Hne Hg).
+  Qed.
+End AllFinal.
+
+(** G2 and G3 for every valid block: distinct live deletions (the old proof of the deleted leaves
+    exists), fresh additions *)
+Theorem proof_update_every_block {H} (HO : ops H) :
+  ops_ok HO -> (forall a b, NZ HO (op_hash2 HO a b)) ->
+  forall (s : slots H) (hs adds C : list H) (rem : list N),
+  (forall h, In (Some h) s -> NZ HO h) ->
+  N.of_nat (length s + length adds) <= 2 ^ 63 ->
+  NoDup (live s) -> NoDup hs ->
+  NoDup (live (kill HO hs s ++ map Some adds)) ->
+  NoDup C -> SSlt rem ->
+  (forall x, In x (layout HO (kill HO hs s ++ map Some adds)) -> nleaf x = false ->
+             ~ In (nhash x) (pick adds rem)) ->
+  forall hC tC pC bt pfd,
+  exp_cached HO (mk_ctx HO s) C = Some (hC, tC, pC) ->
+  exp_prove HO (mk_ctx HO s) hs = Some (bt, pfd) ->
+  proof_update HO tC pC hC adds bt rem (ud_of_spec (spec_update_data HO s hs adds))
+  = exp_cached HO (mk_ctx HO (apply_block HO s hs adds)) (cached_after HO C hs (pick adds rem)) /\
+  exp_cached HO (mk_ctx HO (apply_block HO s hs adds)) (cached_after HO C hs (pick adds rem)) <> None.
+Proof.
+  intros HOK Hnz s hs adds C rem Hl Hb Hnd Hhs Hnd2 HC Hrem Hcol hC tC pC bt pfd E Ep.
+  assert (Hn63 : N.of_nat (length s) <= 2 ^ 63) by lia.
+  unfold exp_prove in Ep. cbn [mk_ctx clay crows] in Ep.
+  destruct (find_leaves HO (layout HO s) hs) as [xds|] eqn:Fx; [|discriminate]. injection Ep as <- _.
+  destruct (cc_find_leaves_facts HO s hs xds HOK Hhs Fx) as (Lx & Flx & Ntx & Ehx & _).
+  destruct (af_targets H HO HOK s Hn63 Hnd hs xds Lx Flx Ntx Ehx) as (Dall & A1 & A2 & A2s & HsD & HD).
+  apply (dg2_block H HO HOK Hnz s Hl Hn63 Hnd hs xds Lx Flx Ehx Dall A1 A2 A2s
+           (gf_up H HO s hs (lifts Dall) HsD HD) (gf_down H HO s hs (lifts Dall) HsD HD)
+           C HC hC tC pC E adds rem Hb Hnd2 Hrem Hcol).
+Qed.
+Print Assumptions proof_update_every_block.
+
+Theorem proof_update_every_block_term (s : slots term) (hs adds C : list term) (rem : list N)
+        (hC : list term) (tC : list N) (pC : list term) (bt : list N) (pfd : list term) :
+  (forall h, In (Some h) s -> h <> Zero) ->
+  N.of_nat (length s + length adds) <= 2 ^ 63 ->
+  NoDup (live s) -> NoDup hs ->
+  NoDup (live (kill term_ops hs s ++ map Some adds)) ->
+  (forall a, In a adds -> exists i, a = Atom i) ->
+  NoDup C -> SSlt rem ->
+  exp_cached term_ops (mk_ctx term_ops s) C = Some (hC, tC, pC) ->
+  exp_prove term_ops (mk_ctx term_ops s) hs = Some (bt, pfd) ->
+  proof_update term_ops tC pC hC adds bt rem (ud_of_spec (spec_update_data term_ops s hs adds))
+  = exp_cached term_ops (mk_ctx term_ops (apply_block term_ops s hs adds))
+               (cached_after term_ops C hs (pick adds rem)) /\
+  exp_cached term_ops (mk_ctx term_ops (apply_block term_ops s hs adds))
+             (cached_after term_ops C hs (pick adds rem)) <> None.
+Proof.
+  intros Hl Hb Hnd Hhs Hnd2 Hatoms HC Hrem E Ep.
+  apply (proof_update_every_block term_ops term_ops_ok cs_term_hash_nz s hs adds C rem
+           (fun h Hh => term_nonzero_eqb h (Hl h Hh)) Hb Hnd Hhs Hnd2 HC Hrem) with (pfd := pfd);
+    [|exact E|exact Ep].
+  intros x Hx Hlf Hin. destruct (Hatoms _ (pick_In adds rem _ Hin)) as [i Ei].
+  destruct (pu_term_inner _ x Hx Hlf) as [E0|(l & r & E0)]; congruence.
+Qed.
+Print Assumptions proof_update_every_block_term.
+
+(** non-vacuity.  Eight leaves: the block deletes the whole left half [Atom 1 .. Atom 4] (one
+    target after [deTwin], two rounds of merging) and [Atom 6]; the cached [Atom 5] and [Atom 7]
+    move up; one leaf is added and remembered *)
+Example pu_ex_subtree_deleted :
+  exists hC tC pC bt pfd,
+    exp_cached term_ops (mk_ctx term_ops pu_ex_s8) [Atom 5; Atom 7; Atom 2] = Some (hC, tC, pC) /\
+    exp_prove term_ops (mk_ctx term_ops pu_ex_s8) [Atom 3; Atom 6; Atom 1; Atom 4; Atom 2] = Some (bt, pfd) /\
+    proof_update term_ops tC pC hC [Atom 9] bt [0]
+                 (ud_of_spec (spec_update_data term_ops pu_ex_s8 [Atom 3; Atom 6; Atom 1; Atom 4; Atom 2] [Atom 9]))
+    = exp_cached term_ops (mk_ctx term_ops (apply_block term_ops pu_ex_s8 [Atom 3; Atom 6; Atom 1; Atom 4; Atom 2] [Atom 9]))
+                 (cached_after term_ops [Atom 5; Atom 7; Atom 2] [Atom 3; Atom 6; Atom 1; Atom 4; Atom 2]
+                               (pick [Atom 9] [0])) /\
+    deTwin (sortN bt) 3 = [5; 12].
+Proof.
+  eexists _, _, _, _, _. split; [vm_compute; reflexivity|]. split; [vm_compute; reflexivity|].
+  split; [|vm_compute; reflexivity].
+  eapply (proof_update_every_block_term pu_ex_s8 [Atom 3; Atom 6; Atom 1; Atom 4; Atom 2] [Atom 9]
+            [Atom 5; Atom 7; Atom 2] [0]).
+  - intros h Hh. cbn in Hh. repeat (destruct Hh as [Hh|Hh]; [try discriminate; injection Hh as <-; discriminate|]). destruct Hh.
+  - vm_compute. discriminate.
+  - apply po_ex_nodup; reflexivity.
+  - apply po_ex_nodup; reflexivity.
+  - apply po_ex_nodup; reflexivity.
+  - intros a Ha. cbn in Ha. repeat (destruct Ha as [<-|Ha]; [eexists; reflexivity|]). destruct Ha.
+  - apply po_ex_nodup; reflexivity.
+  - repeat constructor; lia.
+  - vm_compute. reflexivity.
+  - vm_compute. reflexivity.
+Qed.
+
+(** six leaves (trees of four and of two leaves): the block deletes the whole second tree and a
+    leaf of the first one; the top of the second tree is a target that [getNewPositions] skips *)
+Definition pu_ex_s6 : slots term := map (fun i => Some (Atom i)) [1; 2; 3; 4; 5; 6].
+
+Example pu_ex_tree_deleted :
+  exists hC tC pC bt pfd,
+    exp_cached term_ops (mk_ctx term_ops pu_ex_s6) [Atom 1; Atom 3; Atom 6] = Some (hC, tC, pC) /\
+    exp_prove term_ops (mk_ctx term_ops pu_ex_s6) [Atom 6; Atom 2; Atom 5] = Some (bt, pfd) /\
+    proof_update term_ops tC pC hC [Atom 7; Atom 8] bt [1]
+                 (ud_of_spec (spec_update_data term_ops pu_ex_s6 [Atom 6; Atom 2; Atom 5] [Atom 7; Atom 8]))
+    = exp_cached term_ops (mk_ctx term_ops (apply_block term_ops pu_ex_s6 [Atom 6; Atom 2; Atom 5] [Atom 7; Atom 8]))
+                 (cached_after term_ops [Atom 1; Atom 3; Atom 6] [Atom 6; Atom 2; Atom 5]
+                               (pick [Atom 7; Atom 8] [1])) /\
+    deTwin (sortN bt) 3 = [1; 10].
+Proof.
+  eexists _, _, _, _, _. split; [vm_compute; reflexivity|]. split; [vm_compute; reflexivity|].
+  split; [|vm_compute; reflexivity].
+  eapply (proof_update_every_block_term pu_ex_s6 [Atom 6; Atom 2; Atom 5] [Atom 7; Atom 8]
+            [Atom 1; Atom 3; Atom 6] [1]).
+  - intros h Hh. cbn in Hh. repeat (destruct Hh as [Hh|Hh]; [try discriminate; injection Hh as <-; discriminate|]). destruct Hh.
+  - vm_compute. discriminate.
+  - apply po_ex_nodup; reflexivity.
+  - apply po_ex_nodup; reflexivity.
+  - apply po_ex_nodup; reflexivity.
+  - intros a Ha. cbn in Ha. repeat (destruct Ha as [<-|Ha]; [eexists; reflexivity|]). destruct Ha.
+  - apply po_ex_nodup; reflexivity.
+  - repeat constructor; lia.
+  - vm_compute. reflexivity.
+  - vm_compute. reflexivity.
+Qed.
+
+(** every leaf deleted *)
+Example pu_ex_all_deleted :
+  exists hC tC pC bt pfd,
+    exp_cached term_ops (mk_ctx term_ops pu_ex_s6) [Atom 4; Atom 5] = Some (hC, tC, pC) /\
+    exp_prove term_ops (mk_ctx term_ops pu_ex_s6) [Atom 6; Atom 2; Atom 5; Atom 1; Atom 4; Atom 3] = Some (bt, pfd) /\
+    proof_update term_ops tC pC hC [Atom 7] bt [0]
+                 (ud_of_spec (spec_update_data term_ops pu_ex_s6 [Atom 6; Atom 2; Atom 5; Atom 1; Atom 4; Atom 3] [Atom 7]))
+    = exp_cached term_ops (mk_ctx term_ops (apply_block term_ops pu_ex_s6 [Atom 6; Atom 2; Atom 5; Atom 1; Atom 4; Atom 3] [Atom 7]))
+                 (cached_after term_ops [Atom 4; Atom 5] [Atom 6; Atom 2; Atom 5; Atom 1; Atom 4; Atom 3]
+                               (pick [Atom 7] [0])) /\
+    deTwin (sortN bt) 3 = [10; 12].
+Proof.
+  eexists _, _, _, _, _. split; [vm_compute; reflexivity|]. split; [vm_compute; reflexivity|].
+  split; [|vm_compute; reflexivity].
+  eapply (proof_update_every_block_term pu_ex_s6 [Atom 6; Atom 2; Atom 5; Atom 1; Atom 4; Atom 3] [Atom 7]
+            [Atom 4; Atom 5] [0]).
+  - intros h Hh. cbn in Hh. repeat (destruct Hh as [Hh|Hh]; [try discriminate; injection Hh as <-; discriminate|]). destruct Hh.
+  - vm_compute. discriminate.
+  - apply po_ex_nodup; reflexivity.
+  - apply po_ex_nodup; reflexivity.
+  - apply po_ex_nodup; reflexivity.
+  - intros a Ha. cbn in Ha. repeat (destruct Ha as [<-|Ha]; [eexists; reflexivity|]). destruct Ha.
+  - apply po_ex_nodup; reflexivity.
+  - repeat constructor; lia.
+  - vm_compute. reflexivity.
+  - vm_compute. reflexivity.
+Qed.
+
+(** Summary.  [proof_update_every_block]: for a forest [s] with distinct, non-zero live leaves, any
+    list [hs] of distinct live leaves whose old proof [exp_prove s hs = Some (bt, _)] exists, any
+    additions [adds] that keep the leaves distinct, a duplicate-free cache [C] with its cached
+    proof [exp_cached s C = Some (hC, tC, pC)] and a sorted list [rem] of indices of additions to
+    remember,
+
+      proof_update tC pC hC adds bt rem (ud_of_spec (spec_update_data s hs adds))
+      = exp_cached (apply_block s hs adds) (cached_after C hs (pick adds rem))
+
+    and the right-hand side is not [None].  The only remaining side conditions are the ones of
+    [proof_update_add_only]: at most [2^63] leaves after the block, hashes of inner nodes are not
+    the empty hash and differ from the remembered additions (both hold for terms). *)
